@@ -35,13 +35,21 @@ META = dict(
     design_ref="DESIGN.md §3 C27")
 
 TOL = 1e-9          # algebraic laws (observed noise <= 1e-15 relative)
-TOL_FD = 1e-6       # quantities compared with central finite differences (observed <= 3e-9)
+TOL_FD = 2e-6       # quantities compared with central finite differences (observed <= 1.1e-8)
 
 K_REFSITE = ("site+refsite (translational gear): actuator_moment is not the gradient of actuator_length when the "
              "refsite frame rotates relative to the site")
+K_REFROT = ("site+refsite (rotational gear): actuator_length is computed from site_quat*xquat (wrong multiplication order), "
+            "not from the sites' world orientations")
 K_FP = "muscle bias: passive force curve FP differs from the documented one (FP(lmax)=1.5*fpmax instead of fpmax)"
 K_FL = "muscle gain: active force-length curve FL lacks the documented secondary bump 0.15*bump(L,lmin,(lmin+0.95)/2,0.95)"
 K_BODYGEAR = "body transmission ignores gear (documented: gear scales length and moment arms for all transmission types)"
+K_ACTWRAP = ("integrated-velocity servo on a rotational transmission: re-anchoring the setpoint on the circle moves act outside "
+             "actrange although actlimited is true")
+K_PID2 = ("pid: integral action (ki) together with slewmax is rejected by the compiler (actdim > 1), although the documentation "
+          "describes both controller states in the order [slew, integral]")
+K_TENDONAUTO = ("tendon actuatorfrclimited defaults to 'false' (documented default 'auto'): actuatorfrcrange alone does not "
+                "enable the tendon-level clamp")
 K_TENDONORDER = ("tendon actuatorfrcrange is applied before the actuator forcerange clamp: total actuator force on the "
                  "tendon leaves tendon actuatorfrcrange")
 
@@ -139,7 +147,8 @@ class Spec:
         self.fr = np.array([a["fr"] for a in acts], float).reshape(n, 2)
         self.ar = np.array([a["ar"] for a in acts], float).reshape(n, 2)
         self.lr = np.array([a["lr"] for a in acts], float).reshape(n, 2)
-        self.group = np.array([a["group"] for a in acts])
+        self.group = np.array([a.get("group", 0) for a in acts])
+        self.period = np.array([a.get("period", 0.0) for a in acts], float)   # circle-wrapped servo setpoints
         self.stateful = self.dt != "none"
         self.actadr = np.cumsum(self.stateful) - 1      # activations are laid out in actuator order
 
@@ -161,6 +170,10 @@ def force_reference(sp, length, vel, acc0, ctrl, act, h, clampctrl, mask, muscle
         wnext = np.where(sp.dt == "filterexact", w + (u - w) * (1 - np.exp(-h / tau)), w + h * act_dot)
     wnext = np.where(sp.al, np.clip(wnext, sp.ar[:, 0], sp.ar[:, 1]), wnext)
     x = np.where(sp.stateful, np.where(sp.early, wnext, w), u)
+    if np.any(sp.period > 0):
+        # rotational servos: the setpoint is a point on the circle, the servo drives to its nearest representative
+        per = np.where(sp.period > 0, sp.period, 1.0)
+        x = np.where(sp.period > 0, x - per * np.round((x - length) / per), x)
     gain = np.select([sp.gt == "fixed", sp.gt == "affine"],
                      [sp.gprm[:, 0], sp.gprm[:, 0] + sp.gprm[:, 1] * length + sp.gprm[:, 2] * vel],
                      muscle_gain_v(length, vel, sp.lr, acc0, sp.gprm, muscle_doc[0]))
@@ -172,7 +185,15 @@ def force_reference(sp, length, vel, acc0, ctrl, act, h, clampctrl, mask, muscle
     force = np.where(sp.fl, np.clip(raw, sp.fr[:, 0], sp.fr[:, 1]), raw)
     force = np.where(dis, 0.0, force)
     scale = 1 + np.abs(gain * x) + np.abs(bias)
-    return dict(u=u, act_dot=act_dot, wnext=wnext, x=x, gain=gain, bias=bias, raw=raw, force=force, dis=dis, scale=scale)
+    wrap_edge = np.zeros(sp.n, bool)
+    wrapped = np.zeros(sp.n, bool)
+    if np.any(sp.period > 0):
+        xr = np.where(sp.stateful, np.where(sp.early, wnext, w), u)
+        wrapped = (sp.period > 0) & (xr != x)
+        fr = np.abs(np.mod((xr - length) / np.where(sp.period > 0, sp.period, 1.0), 1.0) - 0.5)
+        wrap_edge = (sp.period > 0) & (fr < 1e-6)          # setpoint diametrically opposite: either representative
+    return dict(u=u, act_dot=act_dot, wnext=wnext, x=x, gain=gain, bias=bias, raw=raw, force=force, dis=dis, scale=scale,
+                wrap_edge=wrap_edge, wrapped=wrapped)
 
 
 # ====================================================================== transmission reference
@@ -257,6 +278,11 @@ def ref_transmission(lib, m, d, F, desc, gear, part=None):
             out["alt"] = alt + mrot
             if np.any(g[3:]) and abs(np.linalg.norm(rot) - math.pi) < 1e-6:
                 out["skip_length"] = "relative rotation at the wrap pi"
+            # attribution only: orientation "quaternions" multiplied in the wrong order (local * body)
+            from ..mjutil import quat_mul
+            wq = [quat_mul(np.array(m.site_quat[k]), np.array(d.xquat[int(m.site_bodyid[k])])) for k in (s, r)]
+            rel = quat_mul(wq[1] * np.array([1, -1, -1, -1.0]), wq[0])
+            out["alt_length"] = tl(F.q, F.xpos, F.xmat, F.spos, F.smat) + float(g[3:] @ R.quat2expmap(rel))
     elif kind == "crank":
         c = _id(lib, m, 6, desc["crank"])
         s = _id(lib, m, 6, desc["slider"])
@@ -289,6 +315,7 @@ def ref_transmission(lib, m, d, F, desc, gear, part=None):
             if int(c["exclude"]) not in (0, 1):
                 continue
             n += 1
+            out["ngap"] = out.get("ngap", 0) + int(int(c["exclude"]) == 1)
             p = np.array(c["pos"])
             nrm = np.array(c["frame"][:3])
             v2 = F.dxpos[b2] + np.cross(F.Wx[b2].T, p - F.xpos[b2]).T
@@ -314,15 +341,437 @@ def tendon_length_fn(lib, m, name):
     return lambda q, xpos, xmat, spos, smat: float(np.linalg.norm(spos[s[1]] - spos[s[0]]) + np.linalg.norm(spos[s[2]] - spos[s[1]]))
 
 
-# ====================================================================== Part A
+# ====================================================================== generic model runner
 
-def build_partA(tname, root, target, gear, desc, tclamp, lengthrange):
+_B1 = '<mujoco><worldbody><body><joint name="j" type="%s"/><geom size="0.1"/></body></worldbody>%s</mujoco>'
+MINIMAL = {
+    # canonical key -> smallest input that shows it (all reproduced against the tree), observed vs documented
+    "K_REFROT": dict(
+        xml='<mujoco><worldbody><site name="ref"/><body quat="0.7071067811865476 0.7071067811865476 0 0"><joint type="hinge" axis="0 0 1"/>'
+            '<geom size="0.1"/><site name="s" quat="0.7071067811865476 0 0.7071067811865476 0"/></body></worldbody><actuator>'
+            '<general site="s" refsite="ref" gear="0 0 0 0 0 1"/></actuator></mujoco>',
+        call="mj_forward at qpos0", observed="actuator_length = -1.2092", documented="+1.2092 (z-component of the rotation vector of s in ref, "
+        "framequat sensor gives (0.5,0.5,0.5,0.5))"),
+    "K_REFSITE": dict(
+        xml='<mujoco><worldbody><site name="s" pos="1 0 0"/><body><joint type="hinge" axis="0 0 1"/><geom size="0.1"/><site name="ref"/></body>'
+            '</worldbody><actuator><general site="s" refsite="ref" gear="1 0 0 0 0 0"/></actuator></mujoco>',
+        call="mj_forward at qpos=[0.5]", observed="actuator_length = cos(0.5), actuator_moment = 0 (empty row)", documented="moment = d length/dq = -sin(0.5)"),
+    "K_TENDONORDER": dict(
+        xml=_B1 % ("slide", '<tendon><fixed name="t" actuatorfrclimited="true" actuatorfrcrange="-1 1"><joint joint="j" coef="1"/></fixed></tendon>'
+                            '<actuator><motor tendon="t"/><motor tendon="t" forcerange="-1 1"/></actuator>'),
+        call="mj_forward with ctrl=[10,-8]", observed="actuator_force = [5,-1], total 4", documented="total actuator force on the tendon within [-1,1]"),
+    "K_TENDONAUTO": dict(
+        xml=_B1 % ("slide", '<tendon><fixed name="t" actuatorfrcrange="-1 1"><joint joint="j" coef="1"/></fixed></tendon><actuator><motor tendon="t"/></actuator>'),
+        call="mj_forward with ctrl=[3]", observed="tendon_actfrclimited=0, qfrc_actuator=3", documented="actuatorfrclimited default 'auto' -> limited, qfrc_actuator=1"),
+    "K_BODYGEAR": dict(
+        xml='<mujoco><worldbody><geom type="plane" size="1 1 .1"/><body name="b" pos="0 0 0.09"><joint type="slide" axis="0 0 1"/><geom size="0.1"/></body>'
+            '</worldbody><actuator><general body="b" gear="1"/><general body="b" gear="2"/></actuator></mujoco>',
+        call="mj_forward", observed="actuator_moment = [-1,-1]", documented="gear scales the moment arms for all transmission types: [-1,-2]"),
+    "K_PID2": dict(xml=_B1 % ("hinge", '<actuator><pid joint="j" kp="1" ki="1" slewmax="1"/></actuator>'), call="compile",
+                   observed="Error: actdim > 1 is only allowed for dyntype 'user' and 'dcmotor'", documented="two activation states [slew, integral]"),
+    "K_ACTWRAP": dict(
+        xml=_B1 % ("ball", '<actuator><intvelocity joint="j" gear="1 0 0" kp="1" actrange="-0.2 0.9"/></actuator>'),
+        call="qpos = rotation by 0.97*pi about x, act=[-0.2], ctrl=[0], mj_step", observed="act = 6.0832", documented="act stays in actrange [-0.2,0.9]"),
+    "K_FP": dict(call="mju_muscleBias(len=1.6, lengthrange=(0.75,1.05), acc0=1, prm=(0.75,1.05,1,200,0.5,1.6,1.5,1.3,1.2))",
+                 observed="-1.95 = -1.5*fpmax*F0", documented="-1.3 = -fpmax*F0 at L=lmax (attribute fpmax, FLV.m, figure)"),
+    "K_FL": dict(call="mju_muscleGain(len=0.725, vel=0, lengthrange=(0.75,1.05), acc0=1, prm=(0.75,1.05,1,200,0.5,1.6,1.5,1.3,1.2))",
+                 observed="-0.405", documented="-0.555 = -(bump(L,lmin,1,lmax) + 0.15*bump(L,lmin,(lmin+0.95)/2,0.95)) (FLV.m, figure)"),
+}
+
+
+def _viol(part, key, what, rp):
+    if any(v["key"] == key for v in part["violations"]):
+        return
+    for name, mn in MINIMAL.items():
+        if globals().get(name) == key:
+            rp = dict(rp or {}, minimal=mn)
+    part.violation(key, what, rp)
+
+
+def check_compiled(m, sp):
+    """the compiler stores what the MJCF / the documented shortcut table says."""
+    n = sp.n
+    bad = []
+    if not (m.nactuator == n and m.nu == n and m.nout == n and m.na == int(sp.stateful.sum())):
+        return ["sizes nactuator=%d nu=%d nout=%d na=%d" % (m.nactuator, m.nu, m.nout, m.na)]
+    exp = [("actuator_gaintype", np.array([M.GAIN[x] for x in sp.gt])), ("actuator_biastype", np.array([M.BIAS[x] for x in sp.bt])),
+           ("actuator_dyntype", np.array([M.DYN[x] for x in sp.dt])), ("actuator_ctrllimited", sp.cl), ("actuator_forcelimited", sp.fl),
+           ("actuator_actlimited", sp.al), ("actuator_actearly", sp.early), ("actuator_group", sp.group),
+           ("actuator_actnum", sp.stateful.astype(int)), ("actuator_actadr", np.where(sp.stateful, sp.actadr, -1)),
+           ("actuator_ctrladr", np.arange(n)), ("actuator_outadr", np.arange(n)), ("actuator_ctrlnum", np.ones(n)),
+           ("actuator_outnum", np.ones(n))]
+    for name, e in exp:
+        got = np.array(getattr(m, name)).astype(float).reshape(-1)
+        if not np.array_equal(got, np.asarray(e).astype(float).reshape(-1)):
+            bad.append(name)
+    for name, e, mask in (("actuator_gainprm", sp.gprm, None), ("actuator_biasprm", sp.bprm, None),
+                          ("actuator_dynprm", sp.dprm, sp.stateful), ("actuator_ctrlrange", sp.cr, sp.cl),
+                          ("actuator_forcerange", sp.fr, sp.fl), ("actuator_actrange", sp.ar, sp.al)):
+        got = np.array(getattr(m, name))
+        rows = np.ones(n, bool) if mask is None else mask
+        k = e.shape[1]
+        if np.max(np.abs(got[rows][:, :k] - e[rows]) / (1 + np.abs(e[rows])), initial=0.0) > 1e-12:
+            bad.append(name)
+    musc = (sp.gt == "muscle") | (sp.bt == "muscle")
+    if np.any(musc) and not np.array_equal(np.array(m.actuator_lengthrange)[musc], sp.lr[musc]):
+        bad.append("actuator_lengthrange")
+    return bad
+
+
+def phases(n, na, cp, ap):
+    ctrl = np.array([M.CTRLS[(i + cp) % 4] for i in range(n)])
+    act = np.array([M.ACTS[(i + ap + (i // 4)) % 4] for i in range(na)])
+    return ctrl, act
+
+
+def run_model(lib, part, label, xml, acts, desc, gear_s, qs, vs, tclamp, rp0, masks=M.MASKS, ctrls=None, exp_mask=M.MASKS[2]):
+    """compile `xml` (actuators `acts`, all on the transmission `desc`) and enumerate the runtime lattice."""
+    gear = [float(x) for x in gear_s.split()]
+    kind = desc["kind"]
+    m = lib.load_xml(xml)
+    d = lib.make_data(m)
+    for a in acts:
+        if "dampratio" in a:
+            # documented: kv = dampratio * 2 sqrt(kp * m), m = mass at qpos0 incl. armature, reflected through gear^2
+            Mfull = np.zeros((m.nv, m.nv))
+            d.qpos[:] = np.array(m.qpos0)
+            lib.mj_forward(m, d)
+            lib.mj_fullM(m, d, Mfull)
+            dof = int(m.jnt_dofadr[_id(lib, m, 3, desc["jnt"])])
+            mass = Mfull[dof, dof] / gear[0] ** 2
+            a["bprm"] = [0.0, -a["gprm"][0], -a["dampratio"] * 2 * math.sqrt(a["gprm"][0] * mass)]
+    sp = Spec(acts)
+    n, nv, h, na = sp.n, m.nv, M.TIMESTEP, int(m.na)
+    for b in check_compiled(m, sp):
+        _viol(part, "compiled actuator field differs from the MJCF / documented shortcut table: %s [%s]" % (b, label.split("|")[0]),
+              "%s: %s (first rows: engine %s)" % (label, b, np.array(getattr(m, b) if hasattr(m, b) else 0)[:3].tolist() if b.startswith("actuator_") else ""),
+              dict(rp0, xml=xml if len(xml) < 6000 else xml[:6000]))
+    if sp.n != m.nactuator:
+        d.free()
+        m.free()
+        return
+    if int(m.opt.disableactuator) != exp_mask:
+        _viol(part, "option actuatorgroupdisable not compiled to the documented bitfield",
+              "%s: disableactuator=%d expected %d" % (label, int(m.opt.disableactuator), exp_mask), rp0)
+    flags0 = int(m.opt.disableflags)
+    jl = np.array(m.jnt_actfrclimited).astype(bool)
+    exp_jl = np.array([bool(tclamp) and t in (2, 3) for t in np.array(m.jnt_type)])
+    if not np.array_equal(jl, exp_jl):
+        _viol(part, "joint actuatorfrclimited: compiled flag differs from the documentation (scalar joints only)",
+              "%s: jnt_actfrclimited=%s expected %s" % (label, jl.tolist(), exp_jl.tolist()), rp0)
+    acc0_checked = False
+    nz = np.zeros(n, bool)
+    for qi, q in enumerate(qs):
+        d.qvel[:] = 0
+        m.opt.disableflags = flags0
+        m.opt.disableactuator = 0
+        d.ctrl[:] = 0
+        if na:
+            d.act[:] = 0
+        F = R.Frames(lib, m, d, q)
+        d.qpos[:] = q
+        lib.mj_forward(m, d)
+        T = ref_transmission(lib, m, d, F, desc, gear)
+        rp = dict(rp0, qpos=q)
+        if T["skip"]:
+            part.add("boundary_excluded")
+            continue
+        length = np.array(d.actuator_length)
+        Meng = dense(d.moment_rownnz, d.moment_rowadr, d.moment_colind, d.actuator_moment, n, nv)
+        if kind == "crank":
+            l0 = float(length[0])
+            r0, r1 = T["roots"]
+            sign = -1.0 if abs(l0 - r0) <= abs(l0 - r1) else 1.0
+            T["length"] = r0 if sign < 0 else r1
+            T["moment"] = F.fd(T["crankfn"](sign))
+            part.add("crank_root_%s" % ("minus" if sign < 0 else "plus"))
+        # ---- lengths (all rows share the transmission)
+        if "skip_length" in T:
+            part.add("boundary_excluded")
+        else:
+            sc = 1 + abs(T["length"])
+            e = float(np.max(np.abs(length - T["length"]))) / sc
+            if e > TOL * 10:
+                if "alt_length" in T and float(np.max(np.abs(length - T["alt_length"]))) / sc <= TOL * 10:
+                    _viol(part, K_REFROT, "%s q#%d: engine length %r, gear . expmap(R_ref' R_site) = %r" % (label, qi, float(length[0]), T["length"]), rp)
+                else:
+                    _viol(part, "actuator_length differs from the documented length [%s]" % label.split("|")[0],
+                          "%s q#%d: engine %r documented %r" % (label, qi, float(length[0]), T["length"]), rp)
+        # ---- moment arms
+        mref = T["moment"]
+        sc = 1e-9 + max(np.max(np.abs(mref)), np.max(np.abs(Meng)))
+        e = float(np.max(np.abs(Meng - mref[None, :]))) / sc
+        if e > TOL_FD:
+            if T["alt"] is not None and np.max(np.abs(Meng - T["alt"][None, :])) / sc <= TOL_FD:
+                if kind == "body":
+                    _viol(part, K_BODYGEAR, "%s q#%d: moment equals the gear=1 moment, gear=%s (rel err %.3g)" % (label, qi, gear_s, e), rp)
+                else:
+                    _viol(part, K_REFSITE, "%s q#%d: engine moment %s, d(length)/dq %s" % (
+                        label, qi, np.round(Meng[0], 6).tolist(), np.round(mref, 6).tolist()), rp)
+            else:
+                _viol(part, "actuator_moment differs from the documented moment arms [%s]" % label.split("|")[0],
+                      "%s q#%d: rel err %.3g engine %s reference %s" % (label, qi, e, np.round(Meng[0], 6).tolist(), np.round(mref, 6).tolist()), rp)
+        if kind == "body":
+            part.add("body_states_with_%d_contacts" % min(T["ncon"], 5))
+            if T.get("ngap"):
+                part.add("body_states_with_gap_contacts_%s" % ("only" if T["ngap"] == T["ncon"] else "mixed"))
+        # acc0 (documented: norm of the joint acceleration caused by a unit actuator force at qpos0)
+        if not acc0_checked and kind != "body" and np.array_equal(q, np.array(m.qpos0)):
+            acc0_checked = True
+            Mfull = np.zeros((nv, nv))
+            lib.mj_fullM(m, d, Mfull)
+            a0 = float(np.linalg.norm(np.linalg.solve(Mfull, Meng[0])))
+            got = np.array(m.actuator_acc0)
+            if np.max(np.abs(got - a0)) > 1e-8 * (1 + a0):
+                _viol(part, "actuator_acc0 differs from |M^-1 moment| at qpos0 [%s]" % label.split("|")[0],
+                      "%s: %r vs %r" % (label, float(got[0]), a0), rp)
+        acc0 = np.array(m.actuator_acc0)
+        for vi, v in enumerate(vs):
+            vel_ref = float(Meng[0] @ v)
+            first = True
+            for mask in masks:
+                for clamp in (True, False):
+                    for cp in range(len(ctrls) if ctrls else 4):
+                        for ap in range(4 if na else 1):
+                            ctrl, act = phases(n, na, cp, ap)
+                            if ctrls:
+                                ctrl = np.array(ctrls[cp], float)
+                            d.qpos[:] = q
+                            d.qvel[:] = v
+                            d.ctrl[:] = ctrl
+                            if na:
+                                d.act[:] = act
+                            m.opt.disableactuator = mask
+                            m.opt.disableflags = flags0 | (0 if clamp else 1 << 8)
+                            lib.mj_forward(m, d)
+                            nz |= evaluate(part, m, d, sp, Meng, acc0, vel_ref, ctrl, act, h, clamp, mask, tclamp, desc,
+                                           dict(rp, qvel=v, mask=mask, clampctrl=clamp, ctrl_phase=cp, act_phase=ap), label, first, acts)
+                            first = False
+        # actuation disabled: no forces at all
+        m.opt.disableflags = flags0 | (1 << 11)
+        m.opt.disableactuator = 0
+        d.ctrl[:] = 0.6
+        lib.mj_forward(m, d)
+        if np.any(np.array(d.actuator_force) != 0) or np.any(np.array(d.qfrc_actuator) != 0):
+            _viol(part, "actuation disable flag leaves actuator forces", label, rp)
+        m.opt.disableflags = flags0
+    for q in (qs if np.any(sp.period > 0) else [qs[min(1, len(qs) - 1)]]):
+        step_lattice(lib, part, m, d, sp, q, vs[-1], h, flags0, rp0, label, acts, masks)
+    for i in np.nonzero(nz)[0]:
+        part.count(0, key="%s#%s" % (label, acts[i]["cfg"]),
+                   sample=dict(rp0, cfg=acts[i]["cfg"]) if i in (0, n // 2, n - 1) else None)
+    d.free()
+    m.free()
+
+
+def tendon_level(sp, ref, force, lo, hi, label):
+    """tendon actuatorfrcrange: 'range for clamping total actuator forces acting on this tendon' (input of the tendon = outputs of
+    the actuators, i.e. after their own forcerange clamp).  Returns [(key|None, what)]; key None = generic force-law mismatch."""
+    out = []
+    fref = ref["force"]
+    tot = float(np.sum(fref))
+    tot_eng = float(np.sum(force))
+    if lo <= tot <= hi:
+        # nothing to clamp at the tendon: forces are the actuators' own
+        if np.max(np.abs(force - fref) / ref["scale"]) > TOL:
+            raw = np.where(ref["dis"], 0.0, ref["raw"])
+            t0 = float(np.sum(raw))
+            sc = lo / t0 if t0 < lo else (hi / t0 if t0 > hi else 1.0)
+            alt = np.where(sp.fl, np.clip(raw * sc, sp.fr[:, 0], sp.fr[:, 1]), raw * sc)     # attribution only
+            if np.max(np.abs(force - alt) / ref["scale"]) <= TOL:
+                out.append((K_TENDONORDER, "%s: forces %s were scaled although the total of the individually clamped forces %r is inside [%g, %g]" % (
+                    label, force[:4].tolist(), tot, lo, hi)))
+            else:
+                out.append((None, ""))
+        return out
+    tol = 1e-9 * (1 + np.sum(np.abs(force)))
+    if tot_eng < lo - tol or tot_eng > hi + tol:
+        out.append((K_TENDONORDER, "%s: total tendon actuator force %r outside [%g, %g] (total of the individually clamped forces %r; "
+                    "engine forces %s)" % (label, tot_eng, lo, hi, tot, force[:4].tolist())))
+    infr = (~sp.fl) | ((force >= sp.fr[:, 0] - 1e-12) & (force <= sp.fr[:, 1] + 1e-12))
+    if not np.all(infr):
+        out.append(("actuator_force outside forcerange [tendon-limited]", label))
+    if np.any(force * fref < -1e-12) or np.any(force[ref["dis"]] != 0):
+        out.append(("tendon-level clamp flips the sign of an actuator force or revives a disabled actuator", label))
+    return out
+
+
+def evaluate(part, m, d, sp, Meng, acc0, vel_ref, ctrl, act, h, clamp, mask, tclamp, desc, rp, label, first, acts):
+    n = sp.n
+    tname = label.split("|")[0]
+    length = np.array(d.actuator_length)
+    vel = np.array(d.actuator_velocity)
+    force = np.array(d.actuator_force)
+    if first:
+        e = float(np.max(np.abs(vel - vel_ref))) / (1 + abs(vel_ref))
+        if e > TOL:
+            _viol(part, "actuator_velocity != moment . qvel [%s]" % tname, "%s: %r vs %r" % (label, float(vel[0]), vel_ref), rp)
+    ref = force_reference(sp, length, vel, acc0, ctrl, act, h, clamp, mask)
+    if np.any(ref["wrap_edge"]):
+        part.add("boundary_excluded", int(np.sum(ref["wrap_edge"])))
+    if np.any(sp.period > 0):
+        part.add("circle_wrap_exercised", int(np.sum(ref["wrapped"])))
+    # act_dot (enabled actuators)
+    if m.na:
+        ad = np.array(d.act_dot)
+        exp = ref["act_dot"][sp.stateful]
+        en = ~ref["dis"][sp.stateful]
+        err = np.abs(ad - exp) / (1 + np.abs(exp))
+        err[~en] = 0
+        if np.max(err) > TOL:
+            k = int(np.argmax(err))
+            i = int(np.nonzero(sp.stateful)[0][k])
+            _viol(part, "act_dot differs from the documented activation dynamics [dyn=%s]" % (acts[i]["cfg"][2],),
+                  "%s actuator %d cfg=%s ctrl=%g act=%g: engine %r documented %r" % (label, i, acts[i]["cfg"], ctrl[i], act[k], float(ad[k]), float(exp[k])),
+                  dict(rp, actuator=i, cfg=acts[i]["cfg"]))
+    # actuator_force (pre joint clamp); tendon-level clamp only when the tendon is limited
+    tendon_limited = tclamp and desc["kind"] == "tendon"
+    if tendon_limited:
+        lo, hi = desc.get("tendon_range", (-7.0, 5.0))
+        found = tendon_level(sp, ref, force, lo, hi, label)
+        if found and np.any((sp.gt == "muscle") | (sp.bt == "muscle")):
+            # the muscle-curve deviations (reported with their own keys wherever no tendon clamp interferes) change the total;
+            # judge the tendon-level clamp with the deviating curves before blaming it
+            ref_e = force_reference(sp, length, vel, acc0, ctrl, act, h, clamp, mask, muscle_doc=(False, False))
+            found_e = tendon_level(sp, ref_e, force, lo, hi, label)
+            if all(k == K_TENDONORDER for k, _ in found_e):
+                found = found_e
+        for key, what in found:
+            if key is None:
+                err = np.abs(force - ref["force"]) / ref["scale"]
+                attribute_force_error(part, sp, ref, force, length, vel, acc0, ctrl, act, h, clamp, mask, err, rp, label, acts)
+            else:
+                _viol(part, key, what, rp)
+        tot = float(np.sum(ref["force"]))
+        part.add("tendon_clamp_active" if not (lo <= tot <= hi) else "tendon_clamp_inactive")
+    else:
+        err = np.abs(force - ref["force"]) / ref["scale"]
+        err[ref["wrap_edge"]] = 0
+        if np.max(err) > TOL:
+            attribute_force_error(part, sp, ref, force, length, vel, acc0, ctrl, act, h, clamp, mask, err, rp, label, acts)
+    # qfrc_actuator = moment' force (+ actuator gravcomp) then joint clamp
+    qf = np.array(d.qfrc_actuator)
+    exp = Meng.T @ force
+    jl = np.array(m.jnt_actfrclimited).astype(bool)
+    gc = np.array(m.jnt_actgravcomp).astype(bool)
+    for j in range(m.njnt):
+        da = int(m.jnt_dofadr[j])
+        nd = (6, 3, 1, 1)[int(m.jnt_type[j])]
+        if gc[j]:
+            exp[da:da + nd] += np.array(d.qfrc_gravcomp)[da:da + nd]
+    for j in range(m.njnt):
+        if tclamp and int(m.jnt_type[j]) in (2, 3):
+            da = int(m.jnt_dofadr[j])
+            r = desc.get("joint_range", (-6.0, 9.0))
+            c = min(max(exp[da], r[0]), r[1])
+            part.add("joint_clamp_active" if c != exp[da] else "joint_clamp_inactive")
+            exp[da] = c
+    sc = 1 + float(np.max(np.abs(Meng)) * np.sum(np.abs(force)))
+    e = float(np.max(np.abs(qf - exp))) / sc
+    if e > TOL:
+        _viol(part, "qfrc_actuator != clamp(moment' * actuator_force [+ gravcomp]) [%s]" % tname,
+              "%s: engine %s expected %s" % (label, qf.tolist(), exp.tolist()), rp)
+    part.count(n)
+    return (force != 0) & ~ref["dis"]
+
+
+def attribute_force_error(part, sp, ref, force, length, vel, acc0, ctrl, act, h, clamp, mask, err, rp, label, acts):
+    """map a force mismatch to ONE canonical key per root cause."""
+    n = sp.n
+    bad = err > TOL
+    v = {k: force_reference(sp, length, vel, acc0, ctrl, act, h, clamp, mask, muscle_doc=k)
+         for k in ((True, False), (False, True), (False, False))}
+    ok = {k: np.abs(force - v[k]["force"]) / ref["scale"] <= TOL for k in v}
+    w = np.zeros(n)
+    w[sp.stateful] = act
+    rest = bad.copy()
+    for flag, keys in ((bad & ok[(True, False)], (K_FP,)), (bad & ok[(False, True)] & ~ok[(True, False)], (K_FL,)),
+                       (bad & ok[(False, False)] & ~ok[(True, False)] & ~ok[(False, True)], (K_FP, K_FL))):
+        if np.any(flag):
+            i = int(np.nonzero(flag)[0][0])
+            what = "%s actuator %d cfg=%s length=%g velocity=%g ctrl=%g act=%g: engine force %r documented %r" % (
+                label, i, acts[i]["cfg"], length[i], vel[i], ctrl[i], w[i], float(force[i]), float(ref["force"][i]))
+            for key in keys:
+                _viol(part, key, what, dict(rp, actuator=i, cfg=acts[i]["cfg"]))
+            rest &= ~flag
+    if np.any(rest):
+        i = int(np.nonzero(rest)[0][0])
+        _viol(part, "actuator_force differs from the documented law [%s]" % (acts[i]["cfg"],),
+              "%s actuator %d length=%g velocity=%g ctrl=%g act=%g mask=%d clampctrl=%s: engine %r documented %r (gain %r x %r + bias %r)" % (
+                  label, i, length[i], vel[i], ctrl[i], w[i], mask, clamp, float(force[i]), float(ref["force"][i]),
+                  float(ref["gain"][i]), float(ref["x"][i]), float(ref["bias"][i])), dict(rp, actuator=i, cfg=acts[i]["cfg"]))
+
+
+def step_lattice(lib, part, m, d, sp, q, v, h, flags0, rp0, label, acts, masks):
+    """one mj_step per (mask, clampctrl, ctrl phase, act phase): activations advance as documented and stay in actrange."""
+    na = int(m.na)
+    if not na:
+        return
+    n = sp.n
+    al = sp.al[sp.stateful]
+    ar = sp.ar[sp.stateful]
+    per = sp.period[sp.stateful] * (sp.dt[sp.stateful] == "integrator")
+    for mask in masks:
+        for clamp in (True, False):
+            for cp in range(4):
+                for ap in range(4):
+                    ctrl, act = phases(n, na, cp, ap)
+                    lib.mj_resetData(m, d)
+                    d.qpos[:] = q
+                    d.qvel[:] = v
+                    d.ctrl[:] = ctrl
+                    d.act[:] = act
+                    m.opt.disableactuator = mask
+                    m.opt.disableflags = flags0 | (0 if clamp else 1 << 8)
+                    lib.mj_step(m, d)
+                    got = np.array(d.act)
+                    ref = force_reference(sp, np.zeros(n), np.zeros(n), np.ones(n), ctrl, act, h, clamp, mask)
+                    exp = ref["wnext"][sp.stateful]
+                    dis = ref["dis"][sp.stateful]
+                    # disabled groups: "activation states will not be integrated"
+                    exp = np.where(dis, np.where(al, np.clip(act, ar[:, 0], ar[:, 1]), act), exp)
+                    dif = got - exp
+                    if np.any(per > 0):
+                        # re-anchored rotational setpoints: equal on the circle
+                        pp = np.where(per > 0, per, 1.0)
+                        dif = np.where(per > 0, dif - pp * np.round(dif / pp), dif)
+                    err = np.abs(dif) / (1 + np.abs(exp))
+                    rp = dict(rp0, qpos=q, qvel=v, mask=mask, clampctrl=clamp, ctrl_phase=cp, act_phase=ap, step=True)
+                    if np.max(err) > TOL:
+                        k = int(np.argmax(err))
+                        i = int(np.nonzero(sp.stateful)[0][k])
+                        _viol(part, "activation after mj_step differs from the documented update [%s]" % (acts[i]["cfg"],),
+                              "%s actuator %d cfg=%s ctrl=%g act=%g: engine %r documented %r" % (label, i, acts[i]["cfg"], ctrl[i], act[k], float(got[k]), float(exp[k])),
+                              dict(rp, actuator=i, cfg=acts[i]["cfg"]))
+                    outr = al & ((got < ar[:, 0]) | (got > ar[:, 1]))
+                    if np.any(outr):
+                        k = int(np.nonzero(outr)[0][0])
+                        i = int(np.nonzero(sp.stateful)[0][k])
+                        if per[k] > 0 and abs(dif[k]) <= TOL * (1 + abs(exp[k])):
+                            _viol(part, K_ACTWRAP, "%s actuator %d cfg=%s: act %g -> %r, actrange [%g, %g], period %g, actuator_length %r" % (
+                                label, i, acts[i]["cfg"], act[k], float(got[k]), ar[k, 0], ar[k, 1], per[k], float(d.actuator_length[i])),
+                                dict(rp, actuator=i, cfg=acts[i]["cfg"]))
+                        else:
+                            _viol(part, "activation outside actrange after mj_step", "%s actuator %d cfg=%s: act %g -> %r" % (
+                                label, i, acts[i]["cfg"], act[k], float(got[k])), dict(rp, actuator=i, cfg=acts[i]["cfg"]))
+                    part.count(na)
+    m.opt.disableactuator = 0
+    m.opt.disableflags = flags0
+
+
+# ====================================================================== Part A: the full general-actuator product
+
+def build_partA(target, gear, desc, root, tclamp, lengthrange):
     kept, pruned = M.actuator_product()
     xml_acts = ""
     acts = []
+    gains = list(M.GAINS)
+    if desc["kind"] == "body":
+        # contact-dependent moment arms: acc0 is 0 at compile time, so 'scale/acc0' is undefined; use an explicit force
+        gains[3] = ("muscleS", "muscle", M.MUS_B[:2] + [1.5] + M.MUS_B[3:])
     for i, a in enumerate(kept):
-        xml_acts += M.general_xml("a%d" % i, target, gear, a, lengthrange)
-        acts.append(dict(gt=M.GAINS[a["g"]][1], gprm=M.GAINS[a["g"]][2], bt=M.BIASES[a["b"]][1], bprm=M.BIASES[a["b"]][2],
+        xml_acts += M.general_xml("a%d" % i, target, gear, a, lengthrange, gains)
+        acts.append(dict(gt=gains[a["g"]][1], gprm=gains[a["g"]][2], bt=M.BIASES[a["b"]][1], bprm=M.BIASES[a["b"]][2],
                          dt=M.DYNS[a["dy"]][1], dprm=M.DYNS[a["dy"]][2], cl=a["cl"], fl=a["fl"], al=a["al"], early=a["early"],
                          cr=M.CTRLRANGE, fr=M.FORCERANGE, ar=M.ACTRANGE, lr=lengthrange, group=a["group"],
                          cfg=(M.GAINS[a["g"]][0], M.BIASES[a["b"]][0], M.DYNS[a["dy"]][0], a["cl"], a["fl"], a["al"], a["early"])))
@@ -351,343 +800,735 @@ def probe_lengthrange(lib, root, target, gear, desc, qs):
     if span < 1e-6:
         return (lo - 0.5, lo + 0.25)
     mid = 0.5 * (lo + hi)
-    return (mid - 0.12 * span, mid + 0.1 * span)
-
-
-def check_compiled(part, m, sp, acts, key):
-    """the compiler stores what the MJCF says (types, parameters, ranges, flags, group)."""
-    n = sp.n
-    bad = []
-    if not (m.nactuator == n and m.nu == n and m.nout == n and m.na == int(sp.stateful.sum())):
-        bad.append("sizes nactuator=%d nu=%d nout=%d na=%d" % (m.nactuator, m.nu, m.nout, m.na))
-        return bad
-    exp = [("actuator_gaintype", np.array([M.GAIN[x] for x in sp.gt])), ("actuator_biastype", np.array([M.BIAS[x] for x in sp.bt])),
-           ("actuator_dyntype", np.array([M.DYN[x] for x in sp.dt])), ("actuator_ctrllimited", sp.cl), ("actuator_forcelimited", sp.fl),
-           ("actuator_actearly", sp.early), ("actuator_group", sp.group), ("actuator_gainprm", sp.gprm), ("actuator_biasprm", sp.bprm),
-           ("actuator_ctrlrange", sp.cr), ("actuator_forcerange", sp.fr), ("actuator_lengthrange", sp.lr),
-           ("actuator_actnum", sp.stateful.astype(int)), ("actuator_actadr", np.where(sp.stateful, sp.actadr, -1)),
-           ("actuator_ctrladr", np.arange(n)), ("actuator_outadr", np.arange(n))]
-    for name, e in exp:
-        got = np.array(getattr(m, name))
-        if got.shape != np.asarray(e).shape or not np.array_equal(got.astype(float), np.asarray(e).astype(float)):
-            bad.append(name)
-    al = np.array(m.actuator_actlimited).astype(bool)
-    if not np.array_equal(al, sp.al):
-        bad.append("actuator_actlimited")
-    ar = np.array(m.actuator_actrange)
-    if not np.array_equal(ar[sp.stateful], sp.ar[sp.stateful]):
-        bad.append("actuator_actrange")
-    dp = np.array(m.actuator_dynprm)
-    if not np.array_equal(dp[:, :3], sp.dprm[:, :3]):
-        bad.append("actuator_dynprm")
-    return bad
-
-
-def _viol(part, key, what, rp):
-    if any(v["key"] == key for v in part["violations"]):
-        return
-    part.violation(key, what, rp)
+    return (round(mid - 0.12 * span, 6), round(mid + 0.1 * span, 6))
 
 
 def partA_model(lib, part, item, thorough):
     tname, root, target, gear_s, desc, tclamp = item
-    gear = [float(x) for x in gear_s.split()]
-    kind = desc["kind"]
-    qs = M.state_lattice(root, kind, thorough)
+    qs = M.state_lattice(root, desc["kind"], thorough)
     lr = probe_lengthrange(lib, root, target, gear_s, desc, qs)
-    xml, acts, pruned = build_partA(tname, root, target, gear_s, desc, tclamp, lr)
+    xml, acts, pruned = build_partA(target, gear_s, desc, root, tclamp, lr)
     part.add("partA_pruned_by_schema", pruned)
+    part.add("partA_actuator_configs", len(acts))
+    rp0 = {"part": "A", "transmission": tname, "root": root, "target": target, "gear": gear_s, "tclamp": tclamp,
+           "lengthrange": lr}
+    nv = {"hinge": 2, "slide": 2, "ball": 4, "free": 7}[root]
+    run_model(lib, part, "%s|A tclamp=%d" % (tname, tclamp), xml, acts, desc, gear_s, qs, M.vel_lattice(nv, thorough), tclamp, rp0)
+
+
+# ====================================================================== Part B: pure muscle functions
+
+def partB(lib, part):
+    """mju_muscleGain / mju_muscleBias / mju_muscleDynamics on a lattice containing every branch boundary."""
+    prms = [M.MUS_A, M.MUS_B, M.MUS_C, [0.75, 1.05, -1, 200, 0.5, 1.6, 1.5, 1.3, 1.2], [0.9, 1.0, 1.0, 1.0, 0.2, 2.5, 3.0, 0.4, 2.0]]
+    lrs = [(0.1, 0.4), (-0.3, 0.9)]
+    accs = [0.5, 4.0]
+    seen = set()
+    nbr = {}
+    for prm in prms:
+        r0, r1, force, scale, lmin, lmax, vmax, fpmax, fvmax = prm
+        a, b = 0.5 * (lmin + 1), 0.5 * (1 + lmax)
+        m2 = 0.5 * (lmin + 0.95)
+        brk = [lmin, a, 1.0, b, lmax, 0.5 * (lmin + m2), m2, 0.5 * (m2 + 0.95), 0.95]
+        Ls = sorted(set([x + dx for x in brk for dx in (-1e-3, 0.0, 1e-3)] +
+                        [lmin - 0.2 + k * (lmax + 0.5 - lmin) / 40 for k in range(41)]))
+        c = fvmax - 1
+        Vs = sorted(set([x + dx for x in (-1.0, 0.0, c) for dx in (-1e-3, 0.0, 1e-3)] + [-1.4 + 0.2 * k for k in range(15)]))
+        P = np.array(prm, float)
+        for lr in lrs:
+            LR = np.array(lr, float)
+            L0 = (lr[1] - lr[0]) / (r1 - r0)
+            LT = lr[0] - r0 * L0
+            for acc0 in accs:
+                F0 = force if force >= 0 else scale / acc0
+                for L in Ls:
+                    ln = LT + L * L0
+                    gotb = lib.mju_muscleBias(ln, LR, acc0, P)
+                    expb = R.muscle_bias(ln, lr, acc0, prm)
+                    part.count(1)
+                    if abs(gotb - expb) > TOL * (1 + abs(expb)):
+                        altb = R.muscle_bias(ln, lr, acc0, prm, fp=R.FP_halfquad)
+                        rp = {"part": "B", "fn": "mju_muscleBias", "len": ln, "lengthrange": lr, "acc0": acc0, "prm": prm, "L": L}
+                        if abs(gotb - altb) <= TOL * (1 + abs(altb)):
+                            _viol(part, K_FP, "mju_muscleBias(L=%g, prm=%s) = %r, documented -F0*FP = %r (at L=lmax: %r vs fpmax*F0 = %r)" % (
+                                L, prm, gotb, expb, lib.mju_muscleBias(LT + lmax * L0, LR, acc0, P), -F0 * fpmax), rp)
+                        else:
+                            _viol(part, "mju_muscleBias differs from the documented passive force", "L=%g prm=%s: %r vs %r" % (L, prm, gotb, expb), rp)
+                    for V in Vs:
+                        vel = V * L0 * vmax
+                        got = lib.mju_muscleGain(ln, vel, LR, acc0, P)
+                        exp = R.muscle_gain(ln, vel, lr, acc0, prm)
+                        part.count(1)
+                        br = (prms.index(prm), sum(L > x for x in brk[:5]), sum(V > x for x in (-1.0, 0.0, c)))
+                        seen.add(br)
+                        if abs(got - exp) > TOL * (1 + abs(exp)):
+                            alt = R.muscle_gain(ln, vel, lr, acc0, prm, fl=R.FL_primary)
+                            rp = {"part": "B", "fn": "mju_muscleGain", "len": ln, "vel": vel, "lengthrange": lr, "acc0": acc0, "prm": prm, "L": L, "V": V}
+                            if abs(got - alt) <= TOL * (1 + abs(alt)):
+                                _viol(part, K_FL, "mju_muscleGain(L=%g, V=%g, prm=%s) = %r, documented -F0*FL*FV = %r" % (L, V, prm, got, exp), rp)
+                            else:
+                                _viol(part, "mju_muscleGain differs from the documented active force", "L=%g V=%g prm=%s: %r vs %r" % (L, V, prm, got, exp), rp)
+    for br in seen:
+        part.count(0, key="muscle branch %s" % (br,))
+    dprms = [(0.01, 0.04, 0.0), (0.012, 0.05, 0.3), (0.02, 0.02, 0.1), (0.005, 0.1, 1.0)]
+    for dp in dprms:
+        P = np.array(dp, float)
+        for u in (-0.5, 0.0, 0.2, 0.5, 0.8, 1.0, 1.5):
+            for w in (-0.3, 0.0, 0.1, 0.2, 0.35, 0.5, 0.65, 0.9, 1.0, 1.4):
+                got = lib.mju_muscleDynamics(u, w, P)
+                exp = R.muscle_dyn(u, w, dp)
+                part.count(1, key="muscle dyn %s %s" % (dp, np.sign(min(max(u, 0), 1) - w)))
+                if abs(got - exp) > TOL * (1 + abs(exp)):
+                    _viol(part, "mju_muscleDynamics differs from the documented activation dynamics",
+                          "ctrl=%g act=%g prm=%s: %r vs %r" % (u, w, dp, got, exp), {"part": "B", "ctrl": u, "act": w, "prm": dp})
+
+
+# ====================================================================== Part C1: SISO shortcuts
+
+def shortcut_menu(desc, root, gear_s, lr):
+    """(xml element without target/gear, documented general-actuator settings).  Filtered by what the schema allows."""
+    kind = desc["kind"]
+    S = []
+    lrs = M.fmt(lr)
+    common = dict(cl=0, fl=0, al=0, early=0, cr=(0, 0), fr=(0, 0), ar=(0, 0), lr=lr, group=0)
+
+    def add(tag, attrs, **kw):
+        a = dict(common)
+        a.update(kw)
+        a.setdefault("gprm", [1.0])
+        a.setdefault("bprm", [])
+        a.setdefault("dprm", [])
+        a.setdefault("gt", "fixed")
+        a.setdefault("bt", "none")
+        a.setdefault("dt", "none")
+        a["cfg"] = (tag, attrs)
+        a["tag"], a["attrs"] = tag, attrs
+        S.append(a)
+    gnorm = math.sqrt(sum(float(x) ** 2 for x in gear_s.split()))
+    rot = (kind == "joint" and root == "ball" and desc["jnt"] == "j0") or (kind == "site" and desc.get("ref") and gear_s.startswith("0 0 0"))
+    period = 2 * math.pi * gnorm if rot else 0.0
+    if kind == "body":
+        add("adhesion", 'gain="1.4" ctrlrange="0 1.5"', gprm=[1.4], cl=1, cr=(0, 1.5))
+        add("adhesion", 'gain="0.6" ctrlrange="0 0.5" forcerange="0 0.2" group="2"', gprm=[0.6], cl=1, cr=(0, 0.5), fl=1, fr=(0, 0.2), group=2)
+        return S
+    add("motor", 'ctrlrange="-0.5 1.2" forcerange="-0.8 1.1"', cl=1, cr=M.CTRLRANGE, fl=1, fr=M.FORCERANGE)
+    add("motor", 'group="2"', group=2)
+    add("position", 'kp="2.3"', gprm=[2.3], bt="affine", bprm=[0, -2.3, 0], period=period)
+    add("position", 'kp="2.3" kv="0.4" ctrlrange="-0.5 1.2" group="30"', gprm=[2.3], bt="affine", bprm=[0, -2.3, -0.4], cl=1, cr=M.CTRLRANGE,
+        group=30, period=period)
+    if not rot:
+        add("position", 'kp="1.9" timeconst="0.05" forcerange="-0.8 1.1"', gprm=[1.9], bt="affine", bprm=[0, -1.9, 0], dt="filterexact",
+            dprm=[0.05], fl=1, fr=M.FORCERANGE)
+    add("velocity", 'kv="1.6"', gprm=[1.6], bt="affine", bprm=[0, 0, -1.6])
+    add("intvelocity", 'kp="2.1" kv="0.3" actrange="-0.2 0.9"', gprm=[2.1], bt="affine", bprm=[0, -2.1, -0.3], dt="integrator", al=1,
+        ar=M.ACTRANGE, period=period)
+    add("intvelocity", 'kp="1.1" forcerange="-0.8 1.1"', gprm=[1.1], bt="affine", bprm=[0, -1.1, 0], dt="integrator", fl=1, fr=M.FORCERANGE,
+        period=period)
+    add("damper", 'kv="0.9" ctrlrange="0 1.5"', gt="affine", gprm=[0, 0, -0.9], cl=1, cr=(0, 1.5))
+    add("cylinder", 'timeconst="0.04" area="0.7" bias="0.2 -0.5 -0.1"', gprm=[0.7], bt="affine", bprm=[0.2, -0.5, -0.1], dt="filter", dprm=[0.04])
+    add("cylinder", 'diameter="0.6"', gprm=[math.pi * 0.09], bt="affine", bprm=[0, 0, 0], dt="filter", dprm=[1.0])
+    scalar_target = (kind == "joint" and (root in ("hinge", "slide") or desc["jnt"] == "j1")) or kind == "tendon"
+    if (scalar_target and kind == "joint" and desc["jnt"] == "j0" and not desc["inparent"]) or (
+            kind == "tendon" and desc["ten"] == "tf" and root in ("hinge", "slide")):
+        # inheritrange: ctrlrange (position) / actrange (intvelocity) = midpoint +- X * half range of the target
+        lo, hi = (-1.1, 0.7) if kind == "joint" else (-0.9, 1.3)
+        mid, half = 0.5 * (lo + hi), 0.5 * (hi - lo)
+        if kind == "joint":
+            add("position", 'kp="3.1" dampratio="0.7"', gprm=[3.1], bt="affine", bprm=[0, -3.1, 0], dampratio=0.7)
+        add("position", 'kp="1.3" inheritrange="0.8"', gprm=[1.3], bt="affine", bprm=[0, -1.3, 0], cl=1, cr=(mid - 0.8 * half, mid + 0.8 * half))
+        add("intvelocity", 'kp="1.3" inheritrange="1.2"', gprm=[1.3], bt="affine", bprm=[0, -1.3, 0], dt="integrator", al=1,
+            ar=(mid - 1.2 * half, mid + 1.2 * half))
+    if kind in ("joint", "tendon", "crank") and not (kind == "joint" and root == "free" and desc["jnt"] == "j0"):
+        mdef = [0.75, 1.05, -1, 200, 0.5, 1.6, 1.5, 1.3, 1.2]
+        add("muscle", 'lengthrange="%s"' % lrs, gt="muscle", gprm=mdef, bt="muscle", bprm=mdef, dt="muscle", dprm=[0.01, 0.04, 0])
+        mc = [0.6, 1.2, 4, 200, 0.4, 1.8, 0.9, 1.1, 1.4]
+        add("muscle", 'lengthrange="%s" timeconst="0.02 0.06" tausmooth="0.2" range="0.6 1.2" force="4" lmin="0.4" lmax="1.8" vmax="0.9" '
+            'fpmax="1.1" fvmax="1.4" ctrlrange="0 1" group="2"' % lrs, gt="muscle", gprm=mc, bt="muscle", bprm=mc, dt="muscle",
+            dprm=[0.02, 0.06, 0.2], cl=1, cr=(0, 1), group=2)
+    return S
+
+
+def partC1_model(lib, part, item, thorough):
+    tname, root, target, gear_s, desc, _ = item
+    qs = M.state_lattice(root, desc["kind"], thorough, extreme=[float(x) for x in gear_s.split()][:3] if (desc["kind"] == "joint" and desc["jnt"] == "j0" and root == "ball") else None)
+    lr = probe_lengthrange(lib, root, target, gear_s, desc, qs)
+    acts = shortcut_menu(desc, root, gear_s, lr)
+    xml_acts = ""
+    for i, a in enumerate(acts):
+        tg = target
+        if a["tag"] == "adhesion":
+            xml_acts += '    <adhesion name="c%d" body="b0" %s/>\n' % (i, a["attrs"])
+        else:
+            xml_acts += '    <%s name="c%d" %s gear="%s" %s/>\n' % (a["tag"], i, tg, gear_s, a["attrs"])
+    extra = 'cone="%s"' % desc["cone"] if desc["kind"] == "body" else ""
+    xml = M.base_xml(root, 0, "  <actuator>\n%s  </actuator>\n" % xml_acts, contact=desc["kind"] == "body", option_extra=extra, ranges=True)
+    part.add("partC_shortcut_actuators", len(acts))
+    nv = {"hinge": 2, "slide": 2, "ball": 4, "free": 7}[root]
+    rp0 = {"part": "C1", "transmission": tname, "root": root, "target": target, "gear": gear_s, "xml": xml}
+    run_model(lib, part, "%s|C1 shortcuts" % tname, xml, acts, desc, gear_s, qs, M.vel_lattice(nv, thorough), 0, rp0)
+
+
+# ====================================================================== Part D: joint- and tendon-level clamps, few actuators
+
+def partD_auto(lib, part):
+    """documented defaults: joint/tendon actuatorfrclimited = "auto" -> limited iff actuatorfrcrange is given (autolimits)."""
+    for which in ("joint", "tendon"):
+        for give in (0, 1):
+            body = ('<body><joint name="j" type="hinge"%s/><geom size="0.1"/></body>' % (' actuatorfrcrange="-1 1"' if give and which == "joint" else ""))
+            sec = ('<tendon><fixed name="t"%s><joint joint="j" coef="1"/></fixed></tendon><actuator><motor %s/></actuator>' % (
+                ' actuatorfrcrange="-1 1"' if give and which == "tendon" else "", 'joint="j"' if which == "joint" else 'tendon="t"'))
+            xml = "<mujoco><worldbody>%s</worldbody>%s</mujoco>" % (body, sec)
+            m = lib.load_xml(xml)
+            d = lib.make_data(m)
+            flag = int((m.jnt_actfrclimited if which == "joint" else m.tendon_actfrclimited)[0])
+            d.ctrl[:] = 3.0
+            lib.mj_forward(m, d)
+            q = float(d.qfrc_actuator[0])
+            exp = 1.0 if give else 3.0
+            part.count(1, key="auto default %s %d" % (which, give))
+            if flag != give or abs(q - exp) > 1e-12:
+                key = K_TENDONAUTO if which == "tendon" and give else "actuatorfrclimited auto default wrong [%s given=%d]" % (which, give)
+                _viol(part, key, "%s actuatorfrcrange=%s, actuatorfrclimited unspecified: compiled limited flag %d, ctrl=3 gives qfrc_actuator %r (documented %r)" % (
+                    which, "-1 1" if give else "none", flag, q, exp), {"part": "D", "xml": xml, "ctrl": 3.0})
+            d.free()
+            m.free()
+
+
+def partD_model(lib, part, item, thorough):
+    which, fl1, rng = item
+    if which == "auto":
+        return partD_auto(lib, part)
+    lo, hi = rng
+    if which == "tendon":
+        target, gear_s, desc = 'tendon="tf"', "0.8", dict(kind="tendon", ten="tf", tendon_range=rng, joint_range=rng)
+    else:
+        target, gear_s, desc = 'joint="j0"', "1.3", dict(kind="joint", inparent=False, jnt="j0", joint_range=rng)
+    acts = []
+    xml_acts = ""
+    base = dict(gt="fixed", bt="none", bprm=[], dt="none", dprm=[], cl=0, al=0, early=0, cr=(0, 0), ar=(0, 0), lr=(0, 0))
+    specs = [dict(gprm=[5.0], fl=0, fr=(0, 0), group=0), dict(gprm=[-4.0], fl=fl1, fr=(-1.0, 1.0), group=2),
+             dict(gprm=[0.0, 0.0, -0.9], gt="affine", fl=0, fr=(0, 0), group=30)]
+    for i, s in enumerate(specs):
+        a = dict(base)
+        a.update(s)
+        a["cfg"] = (which, "act%d" % i, fl1, lo, hi)
+        acts.append(a)
+        xml_acts += '    <general name="d%d" %s gear="%s" gaintype="%s" gainprm="%s" forcelimited="%s" forcerange="%s" group="%d"/>\n' % (
+            i, target, gear_s, a["gt"], M.fmt(a["gprm"]), "true" if a["fl"] else "false", M.fmt(a["fr"]) if a["fl"] else "0 0", a["group"])
+    xml = M.base_xml("hinge", 1, "  <actuator>\n%s  </actuator>\n" % xml_acts, tendon_range=M.fmt(rng), joint_range=M.fmt(rng))
+    qs = M.state_lattice("hinge", "joint", thorough)
+    rp0 = {"part": "D", "level": which, "forcelimited_1": fl1, "range": rng, "xml": xml}
+    import itertools
+    ctrls = list(itertools.product(M.CTRLS, repeat=3))
+    run_model(lib, part, "%s-level clamp|D fl=%d range=%s" % (which, fl1, rng), xml, acts, desc, gear_s, qs, M.vel_lattice(2, thorough), 1, rp0,
+              ctrls=ctrls)
+
+# ====================================================================== Part C2: multi-input actuators (pid, orientation, dcmotor)
+
+PID_INPUTS = ["pos vel", "pos", "vel", "ff", "pos ff", "vel ff", "pos vel ff"]
+POSRANGE, VELRANGE, FFRANGE = (-0.5, 1.2), (-0.4, 0.7), (-0.3, 0.5)
+
+
+def pid_product():
+    import itertools
+    kept, pruned = [], 0
+    for inp, ki, imax, slew, fl, ranged in itertools.product(PID_INPUTS, (0.0, 1.5), (0.0, 0.3), (0.0, 0.8), (0, 1), (0, 1)):
+        toks = inp.split()
+        if (ki > 0 or slew > 0) and "pos" not in toks:
+            pruned += 1            # compiler: "pid controller states require the pos input"
+            continue
+        kept.append(dict(inp=toks, ki=ki, imax=imax, slew=slew, fl=fl, ranged=ranged, group=M.GROUPS[len(kept) % 3],
+                         kp=2.3, kv=0.4 if len(kept) % 2 else 0.0))
+    return kept, pruned
+
+
+def wrap_near(u, ref, period):
+    return u - period * round((u - ref) / period) if period > 0 else u
+
+
+def pid_reference(a, period, length, vel, u, w, h, clampctrl, disabled):
+    """documented pid law.  u: control block (in signature order), w: activation block [slew][integral]."""
+    toks = a["inp"]
+    rng = {"pos": POSRANGE, "vel": VELRANGE, "ff": FFRANGE}
+    val = {"pos": 0.0, "vel": 0.0, "ff": 0.0}
+    for k, t in enumerate(toks):
+        x = u[k]
+        if a["ranged"] and clampctrl:
+            x = min(max(x, rng[t][0]), rng[t][1])
+        val[t] = x
+    act_dot = []
+    k = 0
+    pos = val["pos"]
+    edge = False
+    if a["slew"] > 0:
+        prev = w[k]
+        if period > 0:
+            edge |= abs(abs((pos - prev) / period % 1.0) - 0.5) < 1e-6
+        tgt = wrap_near(pos, prev, period)
+        eff = min(max(tgt, prev - a["slew"] * h), prev + a["slew"] * h)
+        act_dot.append((eff - prev) / h)
+        pos = eff
+        k += 1
+    if period > 0 and "pos" in toks:
+        edge |= abs(abs((pos - length) / period % 1.0) - 0.5) < 1e-6
+    err = wrap_near(pos, length, period) - length
+    z = 0.0
+    if a["ki"] > 0:
+        z = w[k]
+        e = err
+        if a["imax"] > 0:
+            if z >= a["imax"]:
+                e = min(e, 0.0)
+            elif z <= -a["imax"]:
+                e = max(e, 0.0)
+        act_dot.append(e)
+    # absent setpoints are fixed at zero (kv is then pure damping; kp acts on 0 - l)
+    f = a["kp"] * (err if "pos" in toks else (wrap_near(0.0, length, period) - length)) + a["kv"] * (val["vel"] - vel) + val["ff"] + a["ki"] * z
+    if a["fl"]:
+        f = min(max(f, M.FORCERANGE[0]), M.FORCERANGE[1])
+    if disabled:
+        f = 0.0
+    return f, act_dot, edge
+
+
+def partC2_pid(lib, part, item, thorough):
+    tname, root, target, gear_s, desc, _ = item
+    kept, pruned = pid_product()
+    # documented: ki and slewmax each add one activation state, in the order [slew, integral]
+    probe = M.base_xml(root, 0, '  <actuator><pid name="p" %s gear="%s" ki="1.5" slewmax="0.8"/></actuator>\n' % (target, gear_s))
+    try:
+        pm = lib.load_xml(probe)
+        ok2 = int(pm.na) == 2
+        pm.free()
+        err = "na != 2"
+    except mj.MjError as e:
+        ok2, err = False, str(e)
+    if not ok2:
+        _viol(part, K_PID2, "<pid ki=1.5 slewmax=0.8> on %s: %s" % (tname, err.strip()[:300]), {"part": "C2", "xml": probe})
+        part.add("partC2_pid_configs_dropped_because_uncompilable", sum(1 for a in kept if a["ki"] > 0 and a["slew"] > 0))
+        kept = [a for a in kept if not (a["ki"] > 0 and a["slew"] > 0)]
+    part.add("partC2_pid_pruned_by_schema", pruned)
+    part.add("partC2_pid_configs", len(kept))
+    xml_acts = ""
+    for i, a in enumerate(kept):
+        s = '    <pid name="p%d" %s gear="%s" kp="%g" kv="%g" input="%s" group="%d"' % (i, target, gear_s, a["kp"], a["kv"], " ".join(a["inp"]), a["group"])
+        if a["ki"]:
+            s += ' ki="%g"' % a["ki"]
+        if a["imax"]:
+            s += ' imax="%g"' % a["imax"]
+        if a["slew"]:
+            s += ' slewmax="%g"' % a["slew"]
+        if a["fl"]:
+            s += ' forcerange="%s"' % M.fmt(M.FORCERANGE)
+        if a["ranged"]:
+            for t, nm, r in (("pos", "posrange", POSRANGE), ("vel", "velrange", VELRANGE), ("ff", "ffrange", FFRANGE)):
+                if t in a["inp"]:
+                    s += ' %s="%s"' % (nm, M.fmt(r))
+        xml_acts += s + "/>\n"
+    xml = M.base_xml(root, 0, "  <actuator>\n%s  </actuator>\n" % xml_acts)
     m = lib.load_xml(xml)
     d = lib.make_data(m)
-    sp = Spec(acts)
-    n, nv, h = sp.n, m.nv, M.TIMESTEP
-    base = "partA %s tclamp=%d" % (tname, tclamp)
-    rp0 = {"part": "A", "transmission": tname, "root": root, "target": target, "gear": gear_s, "tclamp": tclamp}
-
-    for b in check_compiled(part, m, sp, acts, base):
-        _viol(part, "compiled model field differs from MJCF: %s [%s]" % (b, tname), "%s: %s" % (base, b), dict(rp0, xml_head=xml[:3000]))
-    if int(m.opt.disableactuator) != M.MASKS[2]:
-        _viol(part, "option actuatorgroupdisable not compiled to the bitfield", "%s: disableactuator=%d" % (base, int(m.opt.disableactuator)), rp0)
+    n = len(kept)
+    label = "%s|C2 pid" % tname
+    rp0 = {"part": "C2", "actuator": "pid", "transmission": tname, "root": root, "target": target, "gear": gear_s}
+    gnorm = math.sqrt(sum(float(x) ** 2 for x in gear_s.split()))
+    rot = (desc["kind"] == "joint" and root == "ball") or (desc["kind"] == "site" and desc.get("ref") and gear_s.startswith("0 0 0"))
+    period = 2 * math.pi * gnorm if rot else 0.0
+    # layout: controls and activations are blocks in actuator order
+    cnum = [len(a["inp"]) for a in kept]
+    anum = [(a["slew"] > 0) + (a["ki"] > 0) for a in kept]
+    cadr = np.concatenate([[0], np.cumsum(cnum)[:-1]]).astype(int)
+    aadr = np.concatenate([[0], np.cumsum(anum)[:-1]]).astype(int)
+    lay = (np.array_equal(np.array(m.actuator_ctrlnum), cnum) and np.array_equal(np.array(m.actuator_ctrladr), cadr)
+           and np.array_equal(np.array(m.actuator_actnum), anum) and m.nu == sum(cnum) and m.na == sum(anum) and m.nout == n
+           and np.array_equal(np.array(m.actuator_actadr), np.where(np.array(anum) > 0, aadr, -1)))
+    if not lay:
+        _viol(part, "pid: control/activation block layout differs from the documented input signature / state list", label, rp0)
+        d.free()
+        m.free()
+        return
+    h = M.TIMESTEP
     flags0 = int(m.opt.disableflags)
-
-    # joint / tendon level limits as the MJCF says
-    jl = np.array(m.jnt_actfrclimited).astype(bool)
-    jtypes = np.array(m.jnt_type)
-    exp_jl = np.array([bool(tclamp) and t in (2, 3) for t in jtypes])
-    if not np.array_equal(jl, exp_jl):
-        _viol(part, "joint actuatorfrclimited: compiled flag differs from the documentation (scalar joints only) [%s]" % root,
-              "%s: jnt_actfrclimited=%s expected %s" % (base, jl.tolist(), exp_jl.tolist()), rp0)
-
+    nv = m.nv
+    qs = M.state_lattice(root, desc["kind"], thorough)
     vs = M.vel_lattice(nv, thorough)
-    acc0_checked = False
-    nstate = 0
-    for qi, q in enumerate(qs):
-        d.qpos[:] = q
-        d.qvel[:] = 0
-        m.opt.disableflags = flags0
-        m.opt.disableactuator = 0
-        d.ctrl[:] = 0
-        if m.na:
-            d.act[:] = 0
-        lib.mj_forward(m, d)
-        F = R.Frames(lib, m, d, q)
-        d.qpos[:] = q
-        lib.mj_forward(m, d)
-        T = ref_transmission(lib, m, d, F, desc, gear)
-        rp = dict(rp0, qpos=q)
-        if T["skip"]:
-            part.add("boundary_excluded")
-            continue
-        length = np.array(d.actuator_length)
-        Meng = dense(d.moment_rownnz, d.moment_rowadr, d.moment_colind, d.actuator_moment, n, nv)
-        if kind == "crank":
-            l0 = float(length[0])
-            r0, r1 = T["roots"]
-            sign = -1.0 if abs(l0 - r0) <= abs(l0 - r1) else 1.0
-            T["length"] = r0 if sign < 0 else r1
-            T["moment"] = F.fd(T["crankfn"](sign))
-            part.add("crank_root_%s" % ("minus" if sign < 0 else "plus"))
-        # ---- lengths (all rows share the transmission)
-        if "skip_length" in T:
-            part.add("boundary_excluded")
-        else:
-            e = float(np.max(np.abs(length - T["length"]))) / (1e-12 + 1 + abs(T["length"]))
-            if e > TOL * 10:
-                _viol(part, "actuator_length differs from the documented length [%s]" % tname,
-                      "%s q#%d: engine %r documented %r" % (base, qi, float(length[0]), T["length"]), rp)
-        # ---- moment arms
-        mref = T["moment"]
-        sc = 1e-9 + max(np.max(np.abs(mref)), np.max(np.abs(Meng)))
-        e = float(np.max(np.abs(Meng - mref[None, :]))) / sc
-        if e > TOL_FD:
-            if T["alt"] is not None and np.max(np.abs(Meng - T["alt"][None, :])) / sc <= TOL_FD:
-                if kind == "body":
-                    _viol(part, K_BODYGEAR, "%s q#%d: moment equals the gear=1 moment, gear=%s (rel err %.3g)" % (base, qi, gear_s, e), rp)
-                else:
-                    _viol(part, K_REFSITE, "%s q#%d: engine moment %s, d(length)/dq %s" % (
-                        base, qi, np.round(Meng[0], 6).tolist(), np.round(mref, 6).tolist()), rp)
-            else:
-                _viol(part, "actuator_moment differs from the documented moment arms [%s]" % tname,
-                      "%s q#%d: rel err %.3g engine %s reference %s" % (base, qi, e, np.round(Meng[0], 6).tolist(), np.round(mref, 6).tolist()), rp)
-        if kind == "body":
-            part.add("body_states_with_%d_contacts" % min(T["ncon"], 5))
-        # acc0 (documented: norm of the joint acceleration caused by a unit actuator force at qpos0)
-        if not acc0_checked and np.array_equal(q, np.array(m.qpos0)):
-            acc0_checked = True
-            Mfull = np.zeros((nv, nv))
-            lib.mj_fullM(m, d, Mfull)
-            a0 = float(np.linalg.norm(np.linalg.solve(Mfull, Meng[0])))
-            got = np.array(m.actuator_acc0)
-            if np.max(np.abs(got - a0)) > 1e-8 * (1 + a0):
-                _viol(part, "actuator_acc0 differs from |M^-1 moment| at qpos0 [%s]" % tname, "%s: %r vs %r" % (base, float(got[0]), a0), rp)
-        acc0 = np.array(m.actuator_acc0)
-        if np.any((sp.gt == "muscle") | (sp.bt == "muscle")) and acc0[0] < 1e-10:
-            acc0 = np.maximum(acc0, 1e-15)      # scale/acc0 is undefined in the documentation for acc0 = 0; not compared
-            part.add("acc0_zero_states")
-        for vi, v in enumerate(vs):
-            vel_ref = float(Meng[0] @ v)
-            first = True
+    nz = np.zeros(n, bool)
+    for q in qs:
+        for v in vs:
             for mask in M.MASKS:
                 for clamp in (True, False):
                     for cp in range(4):
                         for ap in range(4):
-                            ctrl = np.array([M.CTRLS[(i + cp) % 4] for i in range(n)])
-                            act = np.array([M.ACTS[(i + ap + (i // 4)) % 4] for i in range(int(m.na))])
+                            ctrl = np.array([M.CTRLS[(i + cp + i // 4) % 4] for i in range(m.nu)])
+                            act = np.array([M.ACTS[(i + ap) % 4] for i in range(int(m.na))])
                             d.qpos[:] = q
                             d.qvel[:] = v
                             d.ctrl[:] = ctrl
-                            d.act[:] = act
+                            if m.na:
+                                d.act[:] = act
                             m.opt.disableactuator = mask
                             m.opt.disableflags = flags0 | (0 if clamp else 1 << 8)
                             lib.mj_forward(m, d)
-                            nstate += 1
-                            evaluate(lib, part, m, d, sp, T, Meng, acc0, vel_ref, ctrl, act, h, clamp, mask, tclamp, desc,
-                                     dict(rp, qvel=v, mask=mask, clampctrl=clamp, ctrl_phase=cp, act_phase=ap), base, first, acts)
-                            first = False
-        # actuation disabled: no forces at all
-        m.opt.disableflags = flags0 | (1 << 11)
-        m.opt.disableactuator = 0
-        d.ctrl[:] = 0.6
-        lib.mj_forward(m, d)
-        if np.any(np.array(d.actuator_force) != 0) or np.any(np.array(d.qfrc_actuator) != 0):
-            _viol(part, "actuation disable flag leaves actuator forces", base, rp)
-        m.opt.disableflags = flags0
-    # ---- one mj_step per (mask, clampctrl, ctrl phase, act phase): activations advance as documented
-    step_lattice(lib, part, m, d, sp, qs[min(1, len(qs) - 1)], vs[-1], h, flags0, rp0, base, acts)
+                            length = np.array(d.actuator_length)
+                            vel = np.array(d.actuator_velocity)
+                            force = np.array(d.actuator_force)
+                            adot = np.array(d.act_dot)
+                            for i, a in enumerate(kept):
+                                dis = bool((mask >> a["group"]) & 1)
+                                f, ad, edge = pid_reference(a, period, length[i], vel[i], ctrl[cadr[i]:cadr[i] + cnum[i]],
+                                                            act[aadr[i]:aadr[i] + anum[i]], h, clamp, dis)
+                                part.count(1)
+                                if edge:
+                                    part.add("boundary_excluded")
+                                    continue
+                                rp = dict(rp0, qpos=q, qvel=v, mask=mask, clampctrl=clamp, ctrl=ctrl[cadr[i]:cadr[i] + cnum[i]],
+                                          act=act[aadr[i]:aadr[i] + anum[i]], cfg=a)
+                                cfg = (tuple(a["inp"]), a["ki"], a["imax"], a["slew"], a["fl"], a["ranged"])
+                                if abs(force[i] - f) > TOL * (1 + abs(f) + a["kp"] * abs(length[i])):
+                                    _viol(part, "pid: actuator_force differs from the documented law [input=%s ki=%g imax=%g slewmax=%g fl=%d ranged=%d]" % cfg,
+                                          "%s actuator %d length=%g velocity=%g: engine %r documented %r" % (label, i, length[i], vel[i], float(force[i]), f), rp)
+                                if not dis:
+                                    got = adot[aadr[i]:aadr[i] + anum[i]]
+                                    if len(ad) and np.max(np.abs(got - np.array(ad)) / (1 + np.abs(ad))) > 1e-7:
+                                        _viol(part, "pid: act_dot differs from the documented controller states [input=%s ki=%g imax=%g slewmax=%g fl=%d ranged=%d]" % cfg,
+                                              "%s actuator %d length=%g: engine %s documented %s" % (label, i, length[i], got.tolist(), ad), rp)
+                                if force[i] != 0:
+                                    nz[i] = True
+                            # qfrc = moment' force
+                            Meng = dense(d.moment_rownnz, d.moment_rowadr, d.moment_colind, d.actuator_moment, n, nv)
+                            exp = Meng.T @ force
+                            if np.max(np.abs(np.array(d.qfrc_actuator) - exp)) > TOL * (1 + np.sum(np.abs(force)) * np.max(np.abs(Meng))):
+                                _viol(part, "qfrc_actuator != moment' * actuator_force [pid]", label, dict(rp0, qpos=q))
+    for i in np.nonzero(nz)[0]:
+        part.count(0, key="%s#%d" % (label, i), sample=dict(rp0, cfg=kept[i]) if i == 5 else None)
+    d.free()
+    m.free()
+
+# ---------------------------------------------------------------------- orientation (geodesic SO3 servo)
+
+def expmap2mat(v):
+    v = np.asarray(v, float)
+    ang = np.linalg.norm(v)
+    if ang < 1e-300:
+        return np.eye(3)
+    k = v / ang
+    K = np.array([[0, -k[2], k[1]], [k[2], 0, -k[0]], [-k[1], k[0], 0]])
+    return np.eye(3) + math.sin(ang) * K + (1 - math.cos(ang)) * K @ K
+
+
+ORI_TARGETS = [np.zeros(3), np.array([0.4, -0.3, 0.2]), np.array([-1.0, 2.0, 0.6]), np.array([2.0, 2.0, -1.0])]
+
+
+def partC2_orientation(lib, part, item, thorough):
+    from ..mjutil import quat2mat
+    which, root = item          # which: "ball" or (site, refsite)
+    variants = []
+    for inp in ("expmap", "quat"):
+        for fl in (0, 1):
+            for cl in (0, 1):
+                variants.append(dict(inp=inp, fl=fl, cl=cl, kp=2.3, kv=0.4 if fl else 0.0, group=M.GROUPS[len(variants) % 3]))
+    target = 'joint="j0"' if which == "ball" else 'site="%s" refsite="%s"' % which
+    xml_acts = ""
+    for i, a in enumerate(variants):
+        xml_acts += '    <orientation name="o%d" %s kp="%g" kv="%g" input="%s" group="%d"%s%s/>\n' % (
+            i, target, a["kp"], a["kv"], a["inp"], a["group"], ' forcerange="0 0.9"' if a["fl"] else "",
+            ' ctrlrange="-1.5 1.5"' if a["cl"] else "")
+    xml = M.base_xml(root, 0, "  <actuator>\n%s  </actuator>\n" % xml_acts)
+    m = lib.load_xml(xml)
+    d = lib.make_data(m)
+    n = len(variants)
+    label = "orientation %s|C2" % (which if which == "ball" else "%s-%s" % which)
+    rp0 = {"part": "C2", "actuator": "orientation", "target": target, "root": root}
+    cnum = [3 if a["inp"] == "expmap" else 4 for a in variants]
+    cadr = np.concatenate([[0], np.cumsum(cnum)[:-1]]).astype(int)
+    if not (m.nu == sum(cnum) and m.nout == 3 * n and m.na == 0 and np.array_equal(np.array(m.actuator_ctrlnum), cnum)
+            and np.array_equal(np.array(m.actuator_outnum), [3] * n) and np.array_equal(np.array(m.actuator_outadr), 3 * np.arange(n))):
+        _viol(part, "orientation: input/output block layout differs from the documentation (3|4 controls, 3 force outputs)", label, rp0)
+        d.free()
+        m.free()
+        return
+    flags0 = int(m.opt.disableflags)
+    nv = m.nv
+    if which != "ball":
+        sid = _id(lib, m, 6, which[0])
+        rid = _id(lib, m, 6, which[1])
+    else:
+        jb = int(m.jnt_bodyid[_id(lib, m, 3, "j0")])
+    for q in M.state_lattice(root, "joint", thorough):
+        F = R.Frames(lib, m, d, q)
+        if which == "ball":
+            Rcur = quat2mat(np.array(q[0:4]) / np.linalg.norm(q[0:4]))
+            mom_ref = np.array([F.xmat[jb][:, k] @ F.Wx[jb] for k in range(3)])
+        else:
+            Rcur = F.smat[rid].T @ F.smat[sid]
+            mom_ref = np.array([F.smat[sid][:, k] @ (F.Ws[sid] - F.Ws[rid]) for k in range(3)])
+        len_ref = R.mat2expmap(Rcur)
+        at_pi = abs(np.linalg.norm(len_ref) - math.pi) < 1e-6
+        for v in M.vel_lattice(nv, thorough):
+            for mask in M.MASKS:
+                for clamp in (True, False):
+                    for tp in range(4):
+                        ctrl = np.zeros(m.nu)
+                        for i, a in enumerate(variants):
+                            t = ORI_TARGETS[(i + tp) % 4]
+                            if a["inp"] == "expmap":
+                                ctrl[cadr[i]:cadr[i] + 3] = t
+                            else:
+                                # un-normalised, possibly antipodal quaternion of the same rotation
+                                ang = np.linalg.norm(t)
+                                qt = np.array([1.0, 0, 0, 0]) if ang == 0 else np.concatenate([[math.cos(ang / 2)], math.sin(ang / 2) * t / ang])
+                                ctrl[cadr[i]:cadr[i] + 4] = qt * (-1.7 if (i + tp) % 2 else 0.8)
+                        d.qpos[:] = q
+                        d.qvel[:] = v
+                        d.ctrl[:] = ctrl
+                        m.opt.disableactuator = mask
+                        m.opt.disableflags = flags0 | (0 if clamp else 1 << 8)
+                        lib.mj_forward(m, d)
+                        length = np.array(d.actuator_length).reshape(n, 3)
+                        vel = np.array(d.actuator_velocity).reshape(n, 3)
+                        force = np.array(d.actuator_force).reshape(n, 3)
+                        Meng = dense(d.moment_rownnz, d.moment_rowadr, d.moment_colind, d.actuator_moment, 3 * n, nv)
+                        rp = dict(rp0, qpos=q, qvel=v, mask=mask, clampctrl=clamp, ctrl=ctrl)
+                        if tp == 0 and mask == 0 and clamp:
+                            if at_pi:
+                                part.add("boundary_excluded")
+                            elif np.max(np.abs(length - len_ref[None, :])) > 1e-8:
+                                alt_ok = False
+                                if which != "ball":
+                                    from ..mjutil import quat_mul
+                                    wq = [quat_mul(np.array(m.site_quat[k]), np.array(d.xquat[int(m.site_bodyid[k])])) for k in (sid, rid)]
+                                    alt = R.quat2expmap(quat_mul(wq[1] * np.array([1, -1, -1, -1.0]), wq[0]))
+                                    alt_ok = np.max(np.abs(length - alt[None, :])) <= 1e-8
+                                _viol(part, K_REFROT if alt_ok else "orientation: actuator_length differs from the exponential-map of the (relative) orientation",
+                                      "%s: engine %s documented %s" % (label, length[0].tolist(), len_ref.tolist()), rp)
+                            e = np.max(np.abs(Meng - np.tile(mom_ref, (n, 1)))) / (1e-9 + np.max(np.abs(mom_ref)))
+                            if e > TOL_FD:
+                                _viol(part, "orientation: actuator_moment rows differ from unit torques about the child-frame axes", "%s: rel err %.3g" % (label, e), rp)
+                        if np.max(np.abs(vel - (Meng @ v).reshape(n, 3))) > TOL * (1 + np.max(np.abs(vel))):
+                            _viol(part, "actuator_velocity != moment . qvel [orientation]", label, rp)
+                        for i, a in enumerate(variants):
+                            u = ctrl[cadr[i]:cadr[i] + cnum[i]].copy()
+                            if a["cl"] and clamp:
+                                u = np.clip(u, -1.5, 1.5)
+                            if a["inp"] == "expmap":
+                                Rt = expmap2mat(u)
+                            else:
+                                nq = np.linalg.norm(u)
+                                Rt = quat2mat(u / nq) if nq > 1e-12 else np.eye(3)
+                            dis = bool((mask >> a["group"]) & 1)
+                            part.count(1, key="%s#%d" % (label, i) if not dis else None)
+                            out = []
+                            for src, Rc in (("frames", Rcur), ("engine length", expmap2mat(length[i]))):
+                                Rerr = Rc.T @ Rt
+                                err = R.mat2expmap(Rerr)
+                                edge = abs(np.linalg.norm(err) - math.pi) < 1e-5
+                                f = a["kp"] * err - a["kv"] * vel[i]
+                                if a["fl"] and np.linalg.norm(f) > 0.9:
+                                    f = f * 0.9 / np.linalg.norm(f)
+                                out.append((np.zeros(3) if dis else f, edge))
+                            if out[0][1] or out[1][1] or at_pi:
+                                part.add("boundary_excluded")
+                                continue
+                            if np.max(np.abs(force[i] - out[0][0])) > 1e-8 * (1 + np.linalg.norm(out[0][0])):
+                                cfg = (a["inp"], a["fl"], a["cl"])
+                                if which != "ball" and np.max(np.abs(force[i] - out[1][0])) <= 1e-8 * (1 + np.linalg.norm(out[1][0])):
+                                    _viol(part, K_REFROT, "%s actuator %d: force %s follows the (wrong) actuator_length; from the sites' frames %s" % (
+                                        label, i, force[i].tolist(), out[0][0].tolist()), rp)
+                                else:
+                                    _viol(part, "orientation: actuator_force differs from kp*log(q^-1 q_target) - kv*omega [input=%s fl=%d cl=%d]" % cfg,
+                                          "%s actuator %d: engine %s documented %s" % (label, i, force[i].tolist(), out[0][0].tolist()), rp)
+                        exp = Meng.T @ force.reshape(-1)
+                        if np.max(np.abs(np.array(d.qfrc_actuator) - exp)) > TOL * (1 + np.sum(np.abs(force)) * np.max(np.abs(Meng))):
+                            _viol(part, "qfrc_actuator != moment' * actuator_force [orientation]", label, rp)
     d.free()
     m.free()
 
 
-def evaluate(lib, part, m, d, sp, T, Meng, acc0, vel_ref, ctrl, act, h, clamp, mask, tclamp, desc, rp, base, first, acts):
-    n = sp.n
-    tname = rp["transmission"]
-    length = np.array(d.actuator_length)
-    vel = np.array(d.actuator_velocity)
-    force = np.array(d.actuator_force)
-    if first:
-        e = float(np.max(np.abs(vel - vel_ref))) / (1 + abs(vel_ref))
-        if e > TOL:
-            _viol(part, "actuator_velocity != moment . qvel [%s]" % tname, "%s: %r vs %r" % (base, float(vel[0]), vel_ref), rp)
-    ref = force_reference(sp, length, vel, acc0, ctrl, act, h, clamp, mask)
-    okacc = acc0[0] >= 1e-10
-    cmp_rows = np.ones(n, bool) if okacc else ~(((sp.gt == "muscle") & (sp.gprm[:, 2] < 0)))
-    # act_dot (enabled actuators)
-    if m.na:
-        ad = np.array(d.act_dot)
-        exp = ref["act_dot"][sp.stateful]
-        en = ~ref["dis"][sp.stateful]
-        err = np.abs(ad - exp) / (1 + np.abs(exp))
-        err[~en] = 0
-        if np.max(err) > TOL:
-            k = int(np.argmax(err))
-            i = int(np.nonzero(sp.stateful)[0][k])
-            _viol(part, "act_dot differs from the documented activation dynamics [dyn=%s]" % acts[i]["cfg"][2],
-                  "%s actuator %d cfg=%s ctrl=%g act=%g: engine %r documented %r" % (base, i, acts[i]["cfg"], ctrl[i], act[k], float(ad[k]), float(exp[k])),
-                  dict(rp, actuator=i, cfg=acts[i]["cfg"]))
-    # actuator_force (pre joint clamp); tendon-level clamp only when the tendon is limited
-    tendon_limited = tclamp and desc["kind"] == "tendon"
-    fref = ref["force"]
-    if tendon_limited:
-        tot = float(np.sum(fref))
-        lo, hi = -7.0, 5.0
-        tot_eng = float(np.sum(force))
-        if lo <= tot <= hi:
-            pass
-        else:
-            # documented: the total actuator force on the tendon is clamped to the range; each actuator stays in forcerange
-            tol = 1e-9 * (1 + np.sum(np.abs(force)))
-            if tot_eng < lo - tol or tot_eng > hi + tol:
-                _viol(part, K_TENDONORDER, "%s: total tendon actuator force %r outside [%g, %g] (pre-clamp total %r)" % (base, tot_eng, lo, hi, tot), rp)
-            infr = (~sp.fl) | ((force >= sp.fr[:, 0] - 1e-12) & (force <= sp.fr[:, 1] + 1e-12))
-            if not np.all(infr):
-                _viol(part, "actuator_force outside forcerange [tendon-limited]", base, rp)
-            part.add("tendon_clamp_active")
-            fref = None
-    if fref is not None:
-        err = np.abs(force - fref) / ref["scale"]
-        err[~cmp_rows] = 0
-        if np.max(err) > TOL:
-            attribute_force_error(part, sp, ref, force, length, vel, acc0, ctrl, act, h, clamp, mask, err, rp, base, acts)
-    # qfrc_actuator = moment' force (+ actuator gravcomp) then joint clamp
-    qf = np.array(d.qfrc_actuator)
-    exp = Meng.T @ force
-    jl = np.array(m.jnt_actfrclimited).astype(bool)
-    gc = np.array(m.jnt_actgravcomp).astype(bool)
-    for j in range(m.njnt):
-        da = int(m.jnt_dofadr[j])
-        nd = (6, 3, 1, 1)[int(m.jnt_type[j])]
-        if gc[j]:
-            exp[da:da + nd] += np.array(d.qfrc_gravcomp)[da:da + nd]
-    unclamped = exp.copy()
-    for j in range(m.njnt):
-        if jl[j] and int(m.jnt_type[j]) in (2, 3):
-            da = int(m.jnt_dofadr[j])
-            r = m.jnt_actfrcrange[j]
-            exp[da] = min(max(exp[da], r[0]), r[1])
-            part.add("joint_clamp_active" if exp[da] != unclamped[da] else "joint_clamp_inactive")
-    sc = 1 + float(np.max(np.abs(Meng)) * np.sum(np.abs(force)))
-    e = float(np.max(np.abs(qf - exp))) / sc
-    if e > TOL:
-        _viol(part, "qfrc_actuator != clamp(moment' * actuator_force [+ gravcomp]) [%s]" % tname,
-              "%s: engine %s expected %s" % (base, qf.tolist(), exp.tolist()), rp)
-    part.count(n, key=None)
-    return force != 0
+# ---------------------------------------------------------------------- dcmotor (stateless electrical model)
+
+def dcmotor_menu():
+    """(attributes, documented parameters).  Only the stateless part documented in XMLreference (no inductance/thermal/LuGre,
+    no integral gain / slew states)."""
+    S = []
+    S.append(('resistance="2.0" motorconst="0.3 0.3"', dict(R=2.0, K=0.3, inp=["voltage"])))
+    S.append(('resistance="1.5" motorconst="0.2 0.45"', dict(R=1.5, K=math.sqrt(0.2 * 0.45), inp=["voltage"])))
+    S.append(('resistance="1.5" motorconst="0.25 0"', dict(R=1.5, K=0.25, inp=["voltage"])))
+    S.append(('nominal="12 0.9 40"', dict(K=12 / 40.0, R=(12 / 40.0) * 12 / 0.9, inp=["voltage"])))
+    S.append(('resistance="2.0" motorconst="0.3 0.3" cogging="0.05 7 0.4"', dict(R=2.0, K=0.3, inp=["voltage"], cog=(0.05, 7, 0.4))))
+    S.append(('resistance="2.0" motorconst="0.3 0.3" saturation="0.1 0 0"', dict(R=2.0, K=0.3, inp=["voltage"], tmax=0.1)))
+    S.append(('resistance="2.0" motorconst="0.3 0.3" saturation="0 0.5 0" ctrlrange="-0.5 1.2"', dict(R=2.0, K=0.3, inp=["voltage"], tmax=0.15, cr=M.CTRLRANGE)))
+    S.append(('resistance="2.0" motorconst="0.3 0.3" input="none"', dict(R=2.0, K=0.3, inp=[])))
+    ctl = 'controller="1.7 0 0.2 0 0 %s"'
+    for inp in ("pos", "pos vel", "vel", "ff", "pos vel ff", "pos vel ff voltage", "ff voltage"):
+        for vmax in (0.0, 1.1):
+            S.append(('resistance="2.0" motorconst="0.3 0.3" input="%s" %s' % (inp, ctl % ("%g" % vmax)),
+                      dict(R=2.0, K=0.3, inp=inp.split(), kp=1.7, kd=0.2, vmax=vmax)))
+    return S
 
 
-def attribute_force_error(part, sp, ref, force, length, vel, acc0, ctrl, act, h, clamp, mask, err, rp, base, acts):
-    """map a force mismatch to ONE canonical key per root cause."""
-    n = sp.n
-    bad = err > TOL
-    # try the deviation variants (attribution only)
-    v_fp = force_reference(sp, length, vel, acc0, ctrl, act, h, clamp, mask, muscle_doc=(True, False))
-    v_fl = force_reference(sp, length, vel, acc0, ctrl, act, h, clamp, mask, muscle_doc=(False, True))
-    v_both = force_reference(sp, length, vel, acc0, ctrl, act, h, clamp, mask, muscle_doc=(False, False))
-    ok_fp = np.abs(force - v_fp["force"]) / ref["scale"] <= TOL
-    ok_fl = np.abs(force - v_fl["force"]) / ref["scale"] <= TOL
-    ok_both = np.abs(force - v_both["force"]) / ref["scale"] <= TOL
-    rest = bad.copy()
-    w = np.zeros(n)
-    w[sp.stateful] = act
-    for flag, key in ((bad & ok_fp, K_FP), (bad & ok_fl & ~ok_fp, K_FL), (bad & ok_both & ~ok_fp & ~ok_fl, None)):
-        if np.any(flag):
-            i = int(np.nonzero(flag)[0][0])
-            what = "%s actuator %d cfg=%s length=%g velocity=%g ctrl=%g act=%g: engine force %r documented %r" % (
-                base, i, acts[i]["cfg"], length[i], vel[i], ctrl[i], w[i], float(force[i]), float(ref["force"][i]))
-            if key is None:
-                _viol(part, K_FP, what, dict(rp, actuator=i, cfg=acts[i]["cfg"]))
-                _viol(part, K_FL, what, dict(rp, actuator=i, cfg=acts[i]["cfg"]))
-            else:
-                _viol(part, key, what, dict(rp, actuator=i, cfg=acts[i]["cfg"]))
-            rest &= ~flag
-    if np.any(rest):
-        i = int(np.nonzero(rest)[0][0])
-        _viol(part, "actuator_force differs from the documented law [gain=%s bias=%s dyn=%s cl=%d fl=%d al=%d early=%d]" % acts[i]["cfg"],
-              "%s actuator %d length=%g velocity=%g ctrl=%g act=%g mask=%d clampctrl=%s: engine %r documented %r (gain %r x %r + bias %r)" % (
-                  base, i, length[i], vel[i], ctrl[i], w[i], mask, clamp, float(force[i]), float(ref["force"][i]),
-                  float(ref["gain"][i]), float(ref["x"][i]), float(ref["bias"][i])), dict(rp, actuator=i, cfg=acts[i]["cfg"]))
+def dcmotor_reference(p, length, vel, u, clampctrl, disabled):
+    val = {"pos": 0.0, "vel": 0.0, "ff": 0.0, "voltage": 0.0}
+    for k, t in enumerate(p["inp"]):
+        x = u[k]
+        if "cr" in p and clampctrl and k == 0:
+            x = min(max(x, p["cr"][0]), p["cr"][1])
+        val[t] = x
+    Rr, K = p["R"], p["K"]
+    V = 0.0
+    if any(t in p["inp"] for t in ("pos", "vel", "ff")):
+        tau = p.get("kp", 0.0) * (val["pos"] - length) + p.get("kd", 0.0) * (val["vel"] - vel) + val["ff"]
+        V = Rr / K * tau + K * vel
+        if p.get("vmax", 0) > 0:
+            V = min(max(V, -p["vmax"]), p["vmax"])
+    V += val["voltage"]
+    f = K * (V - K * vel) / Rr                      # torque = K * current, current = (V - K omega) / R
+    if "tmax" in p:
+        f = min(max(f, -p["tmax"]), p["tmax"])
+    if "cog" in p:
+        A_, Np, ph = p["cog"]
+        f += A_ * math.sin(Np * length + ph)
+    return 0.0 if disabled else f
 
 
-def step_lattice(lib, part, m, d, sp, q, v, h, flags0, rp0, base, acts):
-    if not m.na:
+def partC2_dcmotor(lib, part, item, thorough):
+    tname, root, target, gear_s, desc, _ = item
+    menu = dcmotor_menu()
+    xml_acts = ""
+    for i, (attrs, p) in enumerate(menu):
+        p["group"] = M.GROUPS[i % 3]
+        xml_acts += '    <dcmotor name="m%d" %s gear="%s" %s group="%d"/>\n' % (i, target, gear_s, attrs, p["group"])
+    xml = M.base_xml(root, 0, "  <actuator>\n%s  </actuator>\n" % xml_acts)
+    m = lib.load_xml(xml)
+    d = lib.make_data(m)
+    n = len(menu)
+    label = "%s|C2 dcmotor" % tname
+    rp0 = {"part": "C2", "actuator": "dcmotor", "transmission": tname, "root": root, "target": target, "gear": gear_s}
+    cnum = [len(p["inp"]) for _, p in menu]
+    cadr = np.concatenate([[0], np.cumsum(cnum)[:-1]]).astype(int)
+    if not (m.nu == sum(cnum) and m.na == 0 and m.nout == n and np.array_equal(np.array(m.actuator_ctrlnum), cnum)):
+        _viol(part, "dcmotor: control block layout differs from the documented input signature", label, rp0)
+        d.free()
+        m.free()
         return
-    n = sp.n
-    for mask in M.MASKS:
-        for clamp in (True, False):
-            for cp in range(4):
-                for ap in range(4):
-                    ctrl = np.array([M.CTRLS[(i + cp) % 4] for i in range(n)])
-                    act = np.array([M.ACTS[(i + ap + (i // 4)) % 4] for i in range(int(m.na))])
-                    lib.mj_resetData(m, d)
-                    d.qpos[:] = q
-                    d.qvel[:] = v
-                    d.ctrl[:] = ctrl
-                    d.act[:] = act
-                    m.opt.disableactuator = mask
-                    m.opt.disableflags = flags0 | (0 if clamp else 1 << 8)
-                    lib.mj_step(m, d)
-                    got = np.array(d.act)
-                    ref = force_reference(sp, np.zeros(n), np.zeros(n), np.ones(n), ctrl, act, h, clamp, mask)
-                    exp = ref["wnext"][sp.stateful]
-                    dis = ref["dis"][sp.stateful]
-                    al = sp.al[sp.stateful]
-                    ar = sp.ar[sp.stateful]
-                    # disabled groups: "activation states will not be integrated"
-                    exp = np.where(dis, np.where(al, np.clip(act, ar[:, 0], ar[:, 1]), act), exp)
-                    err = np.abs(got - exp) / (1 + np.abs(exp))
-                    rp = dict(rp0, qpos=q, qvel=v, mask=mask, clampctrl=clamp, ctrl_phase=cp, act_phase=ap, step=True)
-                    if np.max(err) > TOL:
-                        k = int(np.argmax(err))
-                        i = int(np.nonzero(sp.stateful)[0][k])
-                        _viol(part, "activation after mj_step differs from the documented update [dyn=%s early=%d actlimited=%d]" % (
-                            acts[i]["cfg"][2], acts[i]["cfg"][6], acts[i]["cfg"][5]),
-                            "%s actuator %d cfg=%s ctrl=%g act=%g: engine %r documented %r" % (base, i, acts[i]["cfg"], ctrl[i], act[k], float(got[k]), float(exp[k])),
-                            dict(rp, actuator=i, cfg=acts[i]["cfg"]))
-                    out = al & ((got < ar[:, 0]) | (got > ar[:, 1]))
-                    if np.any(out):
-                        _viol(part, "activation outside actrange after mj_step", base, rp)
-                    part.count(int(m.na))
-    m.opt.disableactuator = 0
-    m.opt.disableflags = flags0
+    flags0 = int(m.opt.disableflags)
+    nv = m.nv
+    for q in M.state_lattice(root, desc["kind"], thorough):
+        for v in M.vel_lattice(nv, thorough):
+            for mask in M.MASKS:
+                for clamp in (True, False):
+                    for cp in range(4):
+                        ctrl = np.array([M.CTRLS[(i + cp + i // 4) % 4] for i in range(m.nu)])
+                        d.qpos[:] = q
+                        d.qvel[:] = v
+                        d.ctrl[:] = ctrl
+                        m.opt.disableactuator = mask
+                        m.opt.disableflags = flags0 | (0 if clamp else 1 << 8)
+                        lib.mj_forward(m, d)
+                        length = np.array(d.actuator_length)
+                        vel = np.array(d.actuator_velocity)
+                        force = np.array(d.actuator_force)
+                        for i, (attrs, p) in enumerate(menu):
+                            dis = bool((mask >> p["group"]) & 1)
+                            f = dcmotor_reference(p, length[i], vel[i], ctrl[cadr[i]:cadr[i] + cnum[i]], clamp, dis)
+                            part.count(1, key="%s#%d" % (label, i) if force[i] != 0 else None)
+                            if abs(force[i] - f) > TOL * (1 + abs(f) + abs(length[i]) * 2 + abs(vel[i])):
+                                _viol(part, "dcmotor: actuator_force differs from the documented stateless law [%s]" % attrs,
+                                      "%s actuator %d length=%g velocity=%g ctrl=%s: engine %r documented %r" % (
+                                          label, i, length[i], vel[i], ctrl[cadr[i]:cadr[i] + cnum[i]].tolist(), float(force[i]), float(f)),
+                                      dict(rp0, qpos=q, qvel=v, mask=mask, clampctrl=clamp, attrs=attrs))
+                        Meng = dense(d.moment_rownnz, d.moment_rowadr, d.moment_colind, d.actuator_moment, n, nv)
+                        exp = Meng.T @ force
+                        if np.max(np.abs(np.array(d.qfrc_actuator) - exp)) > TOL * (1 + np.sum(np.abs(force)) * np.max(np.abs(Meng))):
+                            _viol(part, "qfrc_actuator != moment' * actuator_force [dcmotor]", label, dict(rp0, qpos=q))
+    d.free()
+    m.free()
 
 
-def _chunkA(chunk):
+# ====================================================================== dispatch
+
+def _chunk(chunk):
     lib = mj.load()
     part = core.Part()
-    for item, thorough in chunk:
+    for kind, item, thorough in chunk:
         try:
-            partA_model(lib, part, item, thorough)
+            if kind == "A":
+                partA_model(lib, part, item, thorough)
+            elif kind == "B":
+                partB(lib, part)
+            elif kind == "C1":
+                partC1_model(lib, part, item, thorough)
+            elif kind == "D":
+                partD_model(lib, part, item, thorough)
+            elif kind == "C2pid":
+                partC2_pid(lib, part, item, thorough)
+            elif kind == "C2ori":
+                partC2_orientation(lib, part, item, thorough)
+            elif kind == "C2dc":
+                partC2_dcmotor(lib, part, item, thorough)
         except mj.MjError as e:
-            part.violation("engine error in part A [%s]" % item[0], "unexpected mju_error / compile error: %s" % e,
-                           {"item": [item[0], item[1], item[2], item[3], item[5]]})
+            part.violation("engine error in part %s [%s]" % (kind, item[0] if item else ""), "unexpected mju_error / compile error: %s" % e,
+                           {"part": kind, "item": repr(item)[:2000]})
     return part
+
+
+def work_items(thorough):
+    items = []
+    T = M.transmissions(thorough)
+    for t in T:
+        for tclamp in (0, 1):
+            items.append(("A", t + (tclamp,), thorough))
+    items.append(("B", None, thorough))
+    for t in T:
+        if t[0] in ("body:gear2", "body:elliptic"):
+            continue
+        items.append(("C1", t + (0,), thorough))
+    for t in T:
+        if t[0] in ("joint:hinge", "joint:ball", "tendon:spatial", "refsite:s1-sw:rot:ball", "crank:world"):
+            items.append(("C2pid", t + (0,), thorough))
+    for t in T:
+        if t[0] in ("joint:hinge", "tendon:spatial", "crank:world"):
+            items.append(("C2dc", t + (0,), thorough))
+    for which in ("ball", ("s1", "s0"), ("s0", "s1"), ("s1", "sw"), ("sw", "s1")):
+        items.append(("C2ori", (which, "ball"), thorough))
+    items.append(("D", ("auto", 0, None), thorough))
+    for which in ("tendon", "joint"):
+        for fl1 in (0, 1):
+            for rng in ((-1.0, 1.0), (-7.0, 5.0)):
+                items.append(("D", (which, fl1, rng), thorough))
+    return items
 
 
 def run(ctx):
     mj.load()
-    items = []
-    for (tname, root, target, gear, desc) in M.transmissions(ctx.thorough):
-        for tclamp in (0, 1):
-            items.append(((tname, root, target, gear, desc, tclamp), ctx.thorough))
-    core.pmap(ctx, _chunkA, items, nchunks=len(items))
-    ctx.extra["partA_models"] = len(items)
-    ctx.rule = "TODO"
+    items = work_items(ctx.thorough)
+    core.pmap(ctx, _chunk, items, nchunks=len(items))
+    kept, pruned = M.actuator_product()
+    ctx.extra["work_items"] = len(items)
+    ctx.extra["transmissions"] = len(M.transmissions(ctx.thorough))
+    ctx.extra["partA_product_size"] = len(kept) + pruned
+    ctx.rule = (
+        "A: %d transmissions {joint hinge/slide/ball/free, jointinparent, child hinge, fixed & spatial tendon, site, site+refsite "
+        "(4 site/refsite placements x translational/rotational/mixed gear), slider-crank (fixed & moving slider), body adhesion "
+        "(pyramidal/elliptic, gear 1/2)} x joint/tendon actuatorfrcrange {off,on(+actuatorgravcomp)} x the FULL product gain{fixed,affine,"
+        "muscle(force),muscle(scale/acc0)} x bias{none,affine,muscle} x dyn{none,integrator,filter,filterexact,muscle,muscle+tausmooth} "
+        "x ctrllimited x forcelimited x actlimited x actearly = %d configurations (%d pruned: actlimited with dyntype none is a "
+        "compile error), each a separate <general> actuator; runtime lattice: group-disable masks {0, 1<<0, 1<<2|1<<30} (groups 0,2,30) "
+        "x clampctrl {on,off} x ctrl {-1,0,0.6,2} x act {-0.4,0,0.35,1.3} (every actuator sees every ctrl x act pair) x state lattice "
+        "(%s root-joint values x hinge values, zero/mixed velocity) with mj_forward, plus one mj_step per mask x clampctrl x ctrl x act, "
+        "plus the actuation-disable flag. B: mju_muscleGain/Bias/Dynamics on a lattice with every branch boundary +-1e-3. "
+        "C1: 9 SISO shortcut elements (16 attribute variants incl. inheritrange, dampratio, timeconst, diameter) x the same transmissions. "
+        "C2: pid (7 input signatures x ki x imax x slewmax x forcerange x input ranges), orientation (ball / 4 site pairs x expmap/quat), "
+        "stateless dcmotor (22 variants). D: 1-3 actuators per joint/tendon with target-level clamps (64 ctrl triples), auto defaults. "
+        "evaluation = one actuator in one (model, state, runtime setting); non-trivial = actuator configuration that produced a non-zero force while enabled."
+        % (len(M.transmissions(ctx.thorough)), len(kept) + pruned, pruned, "all" if ctx.thorough else "a covering diagonal of"))
+    ctx.assumptions = [
+        "frames (xpos/xmat/site_xpos/site_xmat) and qfrc_gravcomp are taken from mjData (C07, C29); moments are derived from them by central "
+        "finite differences (eps 1e-6, threshold 1e-6 relative; algebraic laws 1e-9 relative)",
+        "ball-joint and rotational-refsite moments are compared with the documented torque about the gear axis, not with the gradient of the "
+        "(chart-dependent) length; lengths at the wrap angle pi and servo setpoints diametrically opposite to the length are excluded (counted)",
+        "slider-crank: the documentation does not say which root of the rod equation is the length; either root is accepted, the moment is the "
+        "gradient of that root; unreachable rods (det<=0) are excluded",
+        "body transmission: acc0 is 0 at compile time, so the muscle(scale/acc0) gain variant uses an explicit force there",
+        "not covered: dcmotor inductance/thermal/LuGre/integral/slew states (PDF note only), pid/dcmotor activation integration in mj_step, "
+        "user callbacks, plugins (C51), ctrl delay buffers, sleeping, flex contacts in adhesion, wrapped tendon geometry",
+    ]
